@@ -1,9 +1,7 @@
 (* C05: the pointer-level invariant [hinv] (HeapInv.v) lifted to the op-list interpreter of
-   BuildOps.v for the sub-language
-     { NewStruct, New{UInt8..64,Bit,Pointer,Void}List, NewData/NewText, SetUint8..64, SetBit,
-       Struct.SetPtr and Message.SetRoot of handles of the same message (all three placements,
-       overwrites, null and empty-struct inline words), read-only accessors }
-   with "pool = table": the valid handles of the pool are the object table. *)
+   BuildOps.v.  The object table is a ghost list next to the interpreter state; every valid
+   handle of the pool is a view of it: a handle of a table object (any depth limit), or a
+   member (List.Struct) of a table list. *)
 From CV Require Import Core.Builder Core.ReaderFacts Core.ArithFacts Core.BuilderFacts Core.AllocProofs
   Core.WritePtrProofs Core.HeapProofs Core.CopyProofs Core.BuildOps Core.BuildValid Core.BuildInv Core.HeapInv.
 From Coq Require Import ZifyBool ZifyNat.
@@ -66,8 +64,10 @@ Proof.
   { intros a Ha. apply (hi_in _ _ _ H). unfold all_regs. apply in_or_app. left. exact Ha. }
   assert (InP : forall a, In a pads -> in_msg (bm_data m) a).
   { intros a Ha. apply (hi_in _ _ _ H). unfold all_regs. apply in_or_app. right. exact Ha. }
+  assert (TF := slot_avoids_tags _ _ _ _ H Hq).
   constructor; auto.
   - intros x Hx. destruct (hi_good _ _ _ H x Hx) as [V Gx]. split; [exact V|eapply good_mono; eauto].
+  - intros x Hx. apply (tag_ok_frame m m' (Rword (fst q) (snd q))); auto. apply (hi_tags _ _ _ H); exact Hx.
   - intros r Hr. unfold all_regs in Hr. apply in_app_or in Hr. destruct Hr as [Hr|Hr].
     + eapply in_msg_mono; eauto.
     + apply in_app_or in Hr. destruct Hr as [Hr|Hr]; [eapply in_msg_mono; eauto|apply PF; exact Hr].
@@ -84,6 +84,7 @@ Proof.
     destruct DEC as [[E1 E2]|NE].
     + assert (Eq : q' = q) by (destruct q, q'; cbn in *; congruence). subst q'. exact SQ.
     + apply (slot_ok_frame m m' (Rword (fst q) (snd q)) pads objs); auto.
+      * apply (hi_tags _ _ _ H).
       * intros k Hk [X1 X2]. lia.
       * intros r Hr k Hk [X1 X2].
         pose proof (hi_cross _ _ _ H _ _ Rq1 Hr) as D. pose proof (hi_pads _ _ _ H r Hr) as Pz.
@@ -131,13 +132,27 @@ Proof.
         rewrite in_seg_intro; [reflexivity| | | | |]; try lia.
         -- rewrite zlen_bm, N. exact Q1.
         -- rewrite seg_len_bm. rewrite (wrote_len _ _ _ _ _ (fst q) W) by lia. lia.
-      * right. exists [], (mkReg (fst q) (snd q) 0). split; [reflexivity|]. split; [intros x []|left; reflexivity].
+      * right. exists [], (mkReg (fst q) (snd q) 0). split; [reflexivity|]. split; [intros x []|left; split; [reflexivity|exact I]].
 Qed.
+
+(* ------------------------------------------------------------------ handles and table objects *)
+(* what a handle says about its object, without depth limit and member flag *)
+Definition core (p : Ptr) : Ptr :=
+  mkPtr (p_valid p) (p_seg p) (p_off p) (p_len p) (p_size p) 0 (p_kind p) (p_comp p) (p_bit p) false.
+
+Lemma core_facts p :
+  obj_reg (core p) = obj_reg p /\ tgt_of (core p) = tgt_of p /\ slots (core p) = slots p /\
+  raw_of (core p) = raw_of p /\ obj_start (core p) = obj_start p /\ obj_bytes (core p) = obj_bytes p /\
+  (shape_ok (core p) <-> shape_ok p).
+Proof. destruct p. repeat split; try reflexivity; intros X; exact X. Qed.
+
+Lemma core_idem p : core (core p) = core p.
+Proof. reflexivity. Qed.
 
 (* ------------------------------------------------------------------ writePtr without copy *)
 Lemma write_ptr_hinv f w objs pads q src w' :
   hinv (w_dst w) objs pads -> In q ((0, 0) :: flat_map slots objs) ->
-  (p_valid src = false \/ In src objs /\ p_member src = false) ->
+  (p_valid src = false \/ In (core src) objs /\ p_member src = false) ->
   write_ptr (S f) true w (fst q) (snd q) InDst src false = Ok w' ->
   nsegs (w_dst w') < 4294967296 ->
   exists pads', hinv (w_dst w') objs (pads ++ pads').
@@ -148,9 +163,12 @@ Proof.
       apply Ok_inj in HW. subst w'. cbn [w_dst w_set_dst] in *. exists []. rewrite app_nil_r.
       apply (hinv_write_inline (w_dst w) objs pads m' q 0); auto. }
   destruct Hsrc as [X|[Hin Hmem]]; [discriminate|].
-  destruct (hi_good _ _ _ H src Hin) as [_ G]. pose proof G as (Sh & _). unfold shape_ok in Sh.
+  destruct (core_facts src) as (C1 & C2 & C3 & C4 & C5 & C6 & C7).
+  destruct (hi_good _ _ _ H _ Hin) as [_ G]. pose proof G as (Sh & _ & Gi & _). apply (proj1 C7) in Sh. unfold shape_ok in Sh.
+  rewrite C1, C5 in Gi. destruct (in_seg_elim _ _ _ _ Gi) as (_ & Gi0 & _).
   destruct (p_kind src) eqn:EK.
   - (* struct *)
+    cbv beta iota in Sh. destruct Sh as [Sh Hcomp].
     destruct (os_isZero (p_size src)) eqn:EZ.
     + rewrite empty_struct_word_eq in HW. cbn [of_opt_panic bind] in HW. unfold lift0 in HW.
       destruct (writeRawPointer (w_dst w) (fst q) (snd q) empty_struct_word) as [m'| |] eqn:EW; cbn [bind] in HW; try discriminate.
@@ -158,14 +176,19 @@ Proof.
       apply (hinv_write_inline (w_dst w) objs pads m' q empty_struct_word); auto.
     + rewrite Hmem in HW. cbn [orb is_src bind] in HW.
       destruct (of_opt_panic (rawStructPointer 0 (p_size src))) as [raw| |] eqn:ER; cbn [bind] in HW; try discriminate.
-      eapply (hinv_place (w_dst w) objs pads w q src raw w'); eauto.
-      unfold raw_of. rewrite EK. exact ER.
+      eapply (hinv_place (w_dst w) objs pads w q (core src) raw w'); eauto.
+      * rewrite C4. unfold raw_of. rewrite EK. exact ER.
+      * rewrite C5. unfold obj_start. rewrite Hcomp. exact HW.
   - (* list *)
-    destruct Sh as (Hc & _). cbn [orb is_src bind] in HW. rewrite Hc in HW.
+    cbn [orb is_src bind] in HW.
     destruct (list_raw src) as [raw| |] eqn:ER; cbn [bind] in HW; try discriminate.
-    eapply (hinv_place (w_dst w) objs pads w q src raw w'); eauto.
-    + intros X. rewrite EK in X. discriminate.
-    + unfold raw_of. rewrite EK. exact ER.
+    eapply (hinv_place (w_dst w) objs pads w q (core src) raw w'); eauto.
+    + cbn [core p_kind]. intros X. rewrite EK in X. discriminate.
+    + rewrite C4. unfold raw_of. rewrite EK. exact ER.
+    + rewrite C5. unfold obj_start in *. destruct (p_comp src); [|exact HW].
+      assert (E : u32 (p_off src - 8) = p_off src - 8).
+      { destruct G as (_ & _ & _ & Go). cbn [core p_off] in Go. unfold u32. lia. }
+      rewrite E in HW. exact HW.
   - destruct Sh.
 Qed.
 
@@ -174,9 +197,13 @@ Lemma hinv_alloc_obj m objs pads sid sz m1 s1 a h :
   hinv m objs pads -> 0 <= sid < nsegs m -> 0 <= sz -> alloc m sid sz = Ok (m1, s1, a) ->
   nsegs m1 < 4294967296 ->
   p_valid h = true -> p_seg h = s1 -> p_off h = a -> shape_ok h -> obj_bytes h = sz ->
+  (p_kind h = KList -> p_comp h = false) ->
   hinv m1 (objs ++ [h]) pads.
 Proof.
-  intros H Hs Hz EA Hns Hv Es Eo Sh Eb.
+  intros H Hs Hz EA Hns Hv Es Eo Sh Eb Hnc.
+  assert (Hc : p_comp h = false).
+  { unfold shape_ok in Sh. destruct (p_kind h); [tauto|auto|contradiction]. }
+  assert (OS : obj_start h = a) by (unfold obj_start; rewrite Hc; exact Eo).
   pose proof (hi_inv _ _ _ H) as Hinv. pose proof Hinv as [Hwf Har].
   destruct (alloc_keeps _ _ _ _ _ _ Hinv Hs Hz EA) as (K & I1 & N1 & S1 & AD & L1 & _ & _ & _ & MX).
   pose proof (alloc_small _ _ _ _ _ _ Hinv (hi_small _ _ _ H) Hs Hz EA) as Sm1.
@@ -185,23 +212,78 @@ Proof.
   pose proof (zlen_nonneg (mem m s1)) as Z0. pose proof (padToWord_nonneg sz) as P0. unfold maxSegmentSize in MX.
   assert (Gd : good (bm_data m1) h).
   { split; [exact Sh|]. split; [rewrite Es; lia|]. split.
-    - unfold obj_reg. cbn [r_size]. rewrite Eb, Es, Eo. unfold blen in A3.
+    - rewrite OS. unfold obj_reg. cbn [r_size]. rewrite Eb, Es. unfold blen in A3.
       apply in_seg_intro; rewrite ?zlen_bm, ?seg_len_bm; try lia.
     - rewrite Eo. lia. }
   apply (hinv_add_obj m objs pads m1 h); auto.
-  - right. rewrite Es, Eo. lia.
+  - intros Ek X. congruence.
+  - right. rewrite Es, OS. lia.
   - intros q Hq. destruct (slot_in_obj _ _ _ Hv Gd Hq) as (S1' & S2 & S3 & _).
-    unfold obj_reg in S3. cbn [r_size] in S3. rewrite Eb, Eo in *. rewrite Es in S1'.
+    unfold obj_reg in S3. cbn [r_size] in S3. rewrite Eb, OS, Eo in *. rewrite Es in S1'.
     rewrite S1'. rewrite word_at_sub; try lia.
     unfold mem at 1. rewrite A6. fold (mem m s1). rewrite sub_app_zeros; try lia.
     now rewrite le_decode_zeros.
 Qed.
 
-Lemma list_alloc_eq h : p_valid h = true -> shape_ok h -> p_kind h = KList ->
+(* a composite list: the allocation, then the tag word at its start *)
+Lemma hinv_alloc_comp m objs pads sid sz m1 s1 a tag m2 h :
+  hinv m objs pads -> 0 <= sid < nsegs m -> 0 <= sz -> alloc m sid sz = Ok (m1, s1, a) ->
+  writeRawPointer m1 s1 a tag = Ok m2 -> rawStructPointer (p_len h) (p_size h) = Some tag ->
+  nsegs m1 < 4294967296 ->
+  p_valid h = true -> p_seg h = s1 -> p_off h = a + 8 -> shape_ok h -> obj_bytes h = sz ->
+  p_kind h = KList -> p_comp h = true ->
+  hinv m2 (objs ++ [h]) pads.
+Proof.
+  intros H Hs Hz EA EW Etag Hns Hv Es Eo Sh Eb Ek Hc.
+  assert (OS : obj_start h = a) by (unfold obj_start; rewrite Hc; lia).
+  assert (Hsz8 : 8 <= padToWord sz /\ word64 tag).
+  { pose proof Sh as Sh'. unfold shape_ok in Sh'. rewrite Ek in Sh'. destruct Sh' as (Hn & [(X & _)|(_ & Hb & Hw & Ht)]); [congruence|].
+    unfold obj_bytes in Eb. rewrite Ek in Eb. rewrite (list_alloc_comp h) in Eb by (auto; lia).
+    assert (W0 : 0 <= wc_of h) by (unfold wc_of; destruct Hw as (Hd & Hm & Hp); lia).
+    assert (K0 : 0 <= p_len h * wc_of h) by nia. split; [subst sz; unfold padToWord, u32; lia|].
+    destruct (fields_tag (p_len h) (p_size h) Hw Hn) as (tag' & Etag' & T0 & _). unfold word64. congruence. }
+  destruct Hsz8 as [Hsz8 Htag64].
+  pose proof (hi_inv _ _ _ H) as Hinv. pose proof Hinv as [Hwf Har].
+  destruct (alloc_keeps _ _ _ _ _ _ Hinv Hs Hz EA) as (K & I1 & N1 & S1 & AD & L1 & _ & _ & _ & MX).
+  pose proof (alloc_small _ _ _ _ _ _ Hinv (hi_small _ _ _ H) Hs Hz EA) as Sm1.
+  pose proof (alloc_fresh _ _ _ _ _ _ Hwf Har Hs Hz EA) as AF. cbv zeta in AF.
+  destruct AF as (_ & _ & A3 & _ & _ & A6 & _).
+  pose proof (zlen_nonneg (mem m s1)) as Z0. pose proof (padToWord_nonneg sz) as P0. unfold maxSegmentSize in MX.
+  assert (S10 : 0 <= s1) by lia.
+  destruct (writeRawPointer_keeps _ _ _ _ _ S10 I1 EW) as (K2 & I2 & N2 & _).
+  assert (W := EW). apply writeRawPointer_wrote in W; [|lia].
+  assert (L2 : forall i, 0 <= i -> zlen (mem m2 i) = zlen (mem m1 i)) by (intros i Hi; apply (wrote_len _ _ _ _ _ i W Hi)).
+  assert (Sm2 : segs_small m2) by (apply (segs_small_same_len m1); auto).
+  assert (Gd1 : good (bm_data m1) h).
+  { split; [exact Sh|]. split; [rewrite Es; lia|]. split.
+    - rewrite OS. unfold obj_reg. cbn [r_size]. rewrite Eb, Es. unfold blen in A3.
+      apply in_seg_intro; rewrite ?zlen_bm, ?seg_len_bm; try lia.
+    - rewrite Eo. lia. }
+  destruct (tag_in_reg _ _ Hv Gd1 Ek Hc) as [T1 T2]. unfold obj_reg in T2. cbn [r_size] in T2. rewrite Eb in T2.
+  assert (G12 : grows (bm_data m1) (bm_data m2)) by (eapply keeps_grows; eauto; lia).
+  assert (Gd : good (bm_data m2) h) by (eapply good_mono; eauto).
+  assert (K02 : keeps m m2 Rnone).
+  { apply (keeps_step m m1 m2 Rnone (Rword s1 a)); auto. intros i k Hi Hk [X1 X2]. subst i. lia. }
+  apply (hinv_add_obj m objs pads m2 h); auto; try lia.
+  - intros _ _. exists tag. split; [exact Etag|]. rewrite Es, Eo. replace (a + 8 - 8) with a by lia.
+    apply word_at_mem; [rewrite N2; exact S1| |lia].
+    apply (wrote_word_back m1 m2); auto. lia.
+  - right. rewrite Es, OS. lia.
+  - intros q Hq. destruct (slot_in_obj _ _ _ Hv Gd1 Hq) as (S1' & S2 & S3 & _).
+    unfold obj_reg in S3. cbn [r_size] in S3. rewrite Eb, OS, Eo in *. rewrite Es in S1'.
+    rewrite S1'. rewrite word_at_sub; try lia; [|rewrite L2 by lia; lia].
+    assert (E12 : sub (mem m2 s1) (snd q) 8 = sub (mem m1 s1) (snd q) 8).
+    { apply (keeps_sub m1 m2 (Rword s1 a)); auto; try lia. intros k Hk [_ X]. lia. }
+    rewrite E12. unfold mem at 1. rewrite A6. fold (mem m s1). rewrite sub_app_zeros; try lia.
+    now rewrite le_decode_zeros.
+Qed.
+
+Lemma list_alloc_eq h : p_valid h = true -> shape_ok h -> p_kind h = KList -> p_comp h = false ->
   obj_bytes h = if p_bit h then bitListSize (p_len h)
                 else (DataSize (p_size h) + 8 * PointerCount (p_size h)) * p_len h.
 Proof.
-  intros Hv Sh Ek. unfold obj_bytes, shape_ok in *. rewrite Ek in *. destruct Sh as (Hc & Hn & Hk).
+  intros Hv Sh Ek Hc. unfold obj_bytes, shape_ok in *. rewrite Ek in *.
+  destruct Sh as (Hn & [(_ & Hk)|(Hc' & _)]); [|congruence].
   destruct Hk as [[Hb Hsz]|[Hb Hsz]]; rewrite Hb.
   - unfold list_allocSize. now rewrite Hv, Hb.
   - destruct Hsz as [Hsz|(d & Hsz & Hd)].
@@ -209,38 +291,231 @@ Proof.
     + rewrite (list_alloc_plain h d 0); auto; try lia. rewrite Hsz. reflexivity.
 Qed.
 
-(* ------------------------------------------------------------------ pool = table *)
-Definition objs_of (st : bstate) : list Ptr := filter p_valid (map snd (st_h st)).
+(* ------------------------------------------------------------------ the pool: views of the table *)
+Definition member_at (h : Ptr) (i : Z) (p : Ptr) : Prop :=
+  p_kind h = KList /\ p_bit h = false /\ 0 <= i < p_len h /\
+  p_valid p = true /\ p_seg p = p_seg h /\ p_off p = p_off h + i * totalSize (p_size h) /\
+  p_size p = p_size h /\ p_kind p = KStruct /\ p_member p = true.
 
-Definition pool_ok (st : bstate) : Prop :=
-  Forall (fun h => fst h = InDst /\ (p_valid (snd h) = true -> p_member (snd h) = false)) (st_h st).
+Definition view (objs : list Ptr) (p : Ptr) : Prop :=
+  p_valid p = false \/ (p_member p = false /\ In (core p) objs) \/ (exists h i, In h objs /\ member_at h i p).
 
-Definition sinv (st : bstate) (pads : list region) : Prop :=
-  hinv (w_dst (st_w st)) (objs_of st) pads /\ pool_ok st.
+Definition pool_ok (objs : list Ptr) (st : bstate) : Prop :=
+  Forall (fun x => fst x = InDst /\ view objs (snd x)) (st_h st).
 
-Lemma objs_of_push st w p : objs_of (hpush st w InDst p) = objs_of st ++ (if p_valid p then [p] else []).
-Proof. unfold objs_of, hpush. cbn [st_h]. rewrite map_app, filter_app. cbn. destruct (p_valid p); reflexivity. Qed.
+Definition sinv (st : bstate) (objs : list Ptr) (pads : list region) : Prop :=
+  hinv (w_dst (st_w st)) objs pads /\ pool_ok objs st.
 
-Lemma pool_ok_push st w p : pool_ok st -> (p_valid p = true -> p_member p = false) -> pool_ok (hpush st w InDst p).
-Proof. intros H Hp. unfold pool_ok, hpush. cbn [st_h]. apply Forall_app. split; [exact H|]. repeat constructor; auto. Qed.
-
-Lemma sinv_push_null st pads : sinv st pads -> sinv (hpush st (st_w st) InDst nullPtr) pads.
+Lemma view_incl objs objs' p : incl objs objs' -> view objs p -> view objs' p.
 Proof.
-  intros [H P]. split.
-  - rewrite objs_of_push. cbn [p_valid nullPtr]. rewrite app_nil_r. exact H.
-  - apply pool_ok_push; auto.
+  intros I [V|[[M V]|(h & i & Hh & V)]]; [left; exact V|right; left; split; auto|right; right; exists h, i; auto].
 Qed.
 
-(* a valid pool handle of the wanted kind is a table object *)
-Lemma hget_obj st pads h : sinv st pads -> p_valid (snd (hget st h)) = true ->
-  In (snd (hget st h)) (objs_of st) /\ p_member (snd (hget st h)) = false /\ fst (hget st h) = InDst.
+Lemma pool_ok_incl objs objs' st : incl objs objs' -> pool_ok objs st -> pool_ok objs' st.
 Proof.
-  intros [_ P] Hv. unfold hget in *.
+  intros I P. unfold pool_ok in *. rewrite Forall_forall in *. intros x Hx. destruct (P x Hx) as [A B].
+  split; [exact A|eapply view_incl; eauto].
+Qed.
+
+Lemma pool_ok_push objs st w p : pool_ok objs st -> view objs p -> pool_ok objs (hpush st w InDst p).
+Proof. intros H Hp. unfold pool_ok, hpush. cbn [st_h]. apply Forall_app. split; [exact H|]. constructor; [split; [reflexivity|exact Hp]|constructor]. Qed.
+
+Lemma view_null objs : view objs nullPtr.
+Proof. left. reflexivity. Qed.
+
+Lemma sinv_push_null st objs pads : sinv st objs pads -> sinv (hpush st (st_w st) InDst nullPtr) objs pads.
+Proof. intros [H P]. split; [exact H|]. apply pool_ok_push; auto. apply view_null. Qed.
+
+Lemma hget_view st objs pads h : sinv st objs pads -> view objs (snd (hget st h)) /\ (p_valid (snd (hget st h)) = true -> fst (hget st h) = InDst).
+Proof.
+  intros [_ P]. unfold hget.
   destruct (Nat.lt_ge_cases (Z.to_nat h) (length (st_h st))) as [L|G].
   - pose proof (nth_In (st_h st) (InDst, nullPtr) L) as Hin.
-    unfold pool_ok in P. rewrite Forall_forall in P. destruct (P _ Hin) as [P1 P2].
-    split; [|split; auto]. unfold objs_of. apply filter_In. split; [apply in_map; exact Hin|exact Hv].
-  - rewrite nth_overflow in Hv by lia. discriminate Hv.
+    unfold pool_ok in P. rewrite Forall_forall in P. destruct (P _ Hin) as [P1 P2]. auto.
+  - rewrite nth_overflow by lia. split; [apply view_null|reflexivity].
+Qed.
+
+(* a valid list handle is a handle of a table object *)
+Lemma list_view objs p : view objs p -> p_valid p = true -> p_kind p = KList -> In (core p) objs /\ p_member p = false.
+Proof.
+  intros [V|[[M V]|(h & i & Hh & (_ & _ & _ & _ & _ & _ & _ & Ek & _))]] Hv Hk; [congruence|auto|congruence].
+Qed.
+
+(* a valid struct handle: where its sections lie in the table object that holds it *)
+Lemma elem_sep base W dw e i k lo hi q :
+  0 <= W -> 0 <= dw -> 0 <= k -> dw + k < W -> 0 <= e -> 0 <= i ->
+  base + 8 * (i * W) <= lo -> hi <= base + 8 * (i * W) + 8 * dw ->
+  q = base + 8 * (e * W + dw) + 8 * k ->
+  hi <= q \/ q + 8 <= lo.
+Proof.
+  intros HW Hd Hk Hlt He Hi Hlo Hhi ->.
+  destruct (Z.lt_trichotomy e i) as [L|[->|G]].
+  - right. assert (X : e * W + W <= i * W) by nia. lia.
+  - left. lia.
+  - left. assert (X : i * W + W <= e * W) by nia. lia.
+Qed.
+
+Lemma comp_slot_in h e k : p_kind h = KList -> p_comp h = true ->
+  0 <= e < p_len h -> 0 <= k < PointerCount (p_size h) ->
+  In (p_seg h, p_off h + 8 * (e * wc_of h + DataSize (p_size h) / 8) + 8 * k) (slots h).
+Proof.
+  intros Ek Hc He Hk. unfold slots, tgt_of. rewrite Ek, Hc. cbn [children].
+  apply in_flat_map. exists e. split.
+  - unfold zseq. apply in_map_iff. exists (Z.to_nat e). split; [lia|apply in_seq; lia].
+  - apply in_map. unfold zseq. apply in_map_iff. exists (Z.to_nat k). split; [unfold wc_of; lia|apply in_seq; lia].
+Qed.
+
+Lemma struct_view_geom m objs pads p :
+  hinv m objs pads -> view objs p -> p_valid p = true -> p_kind p = KStruct ->
+  exists h, In h objs /\ p_seg h = p_seg p /\ 0 <= DataSize (p_size p) /\ 0 <= PointerCount (p_size p) /\
+    p_off h <= p_off p /\
+    p_off p + DataSize (p_size p) + 8 * PointerCount (p_size p) <= obj_start h + r_size (obj_reg h) /\
+    (forall q lo hi, In q (slots h) -> p_off p <= lo -> hi <= p_off p + DataSize (p_size p) -> hi <= snd q \/ snd q + 8 <= lo) /\
+    (forall j, 0 <= j < PointerCount (p_size p) -> In (p_seg p, p_off p + DataSize (p_size p) + 8 * j) (slots h)).
+Proof.
+  intros H V Hv Ek. destruct V as [V|[[M V]|(h & i & Hh & MA)]]; [congruence| |].
+  - (* a table struct *)
+    destruct (core_facts p) as (C1 & C2 & C3 & C4 & C5 & C6 & C7).
+    destruct (hi_good _ _ _ H _ V) as [_ G]. destruct G as (Sh & _). apply (proj1 C7) in Sh. unfold shape_ok in Sh. rewrite Ek in Sh.
+    destruct Sh as ((Hd & Hm & Hp) & Hc).
+    exists (core p). split; [exact V|]. rewrite C1, C3, C5. cbn [core p_seg p_off].
+    assert (TS : totalSize (p_size p) = DataSize (p_size p) + 8 * PointerCount (p_size p)) by (unfold totalSize, pointerSize, u32; lia).
+    unfold obj_reg, obj_bytes, obj_start. rewrite Ek, Hc. cbn [r_size]. rewrite TS.
+    assert (PW : padToWord (DataSize (p_size p) + 8 * PointerCount (p_size p)) = DataSize (p_size p) + 8 * PointerCount (p_size p)) by (unfold padToWord, u32; lia).
+    rewrite PW. repeat split; try lia.
+    + intros q lo hi Hq Hlo Hhi. left. unfold slots, tgt_of in Hq. rewrite Ek in Hq. cbn [children] in Hq.
+      apply in_map_iff in Hq. destruct Hq as (a & <- & Ha). unfold zseq in Ha. apply in_map_iff in Ha. destruct Ha as (k & <- & _).
+      cbn [snd]. lia.
+    + intros j Hj. unfold slots, tgt_of. rewrite Ek. cbn [children]. apply in_map. unfold zseq. apply in_map_iff.
+      exists (Z.to_nat j). split; [lia|apply in_seq; lia].
+  - (* a list member *)
+    destruct MA as (Hk & Hb & Hi & _ & Es & Eo & Esz & _ & _).
+    destruct (hi_good _ _ _ H _ Hh) as [Hvh G]. pose proof G as (Sh & _). unfold shape_ok in Sh. rewrite Hk in Sh.
+    destruct Sh as (Hn & [(Hc & Hsh)|(Hc & _ & Hw & Ht)]).
+    + (* of a plain list *)
+      destruct Hsh as [[X _]|[_ Hsz]]; [congruence|].
+      exists h. split; [exact Hh|]. split; [auto|]. rewrite Esz, Eo.
+      unfold obj_reg, obj_bytes, obj_start. rewrite Hk, Hc. cbn [r_size].
+      destruct Hsz as [Hsz|(d & Hsz & Hd)].
+      * rewrite (list_alloc_plain h 0 1) by (auto; lia). rewrite Hsz. cbn [DataSize PointerCount].
+        change (totalSize (mkOS 0 1)) with 8. unfold padToWord, u32.
+        repeat split; try lia.
+        -- intros q lo hi Hq Hlo Hhi. unfold slots, tgt_of, et_of in Hq. rewrite Hk, Hc, Hb, Hsz in Hq. cbn in Hq.
+           apply in_map_iff in Hq. destruct Hq as (a & <- & Ha). unfold zseq in Ha. apply in_map_iff in Ha. destruct Ha as (k & <- & _).
+           cbn [snd]. lia.
+        -- intros j Hj. assert (j = 0) by lia. subst j. unfold slots, tgt_of, et_of. rewrite Hk, Hc, Hb, Hsz. cbn.
+           rewrite Es. apply in_map. unfold zseq. apply in_map_iff. exists (Z.to_nat i). split; [lia|apply in_seq; lia].
+      * rewrite (list_alloc_plain h d 0) by (auto; lia). rewrite Hsz. cbn [DataSize PointerCount].
+        assert (TS : totalSize (mkOS d 0) = d) by (unfold totalSize, pointerSize, u32; cbn; lia). rewrite TS.
+        assert (K1 : i * d + d <= d * p_len h) by nia. assert (K2 : 0 <= i * d) by nia. assert (K3 : d * p_len h <= 4294967288) by nia.
+        replace ((d + 8 * 0) * p_len h) with (d * p_len h) by ring.
+        set (a := i * d) in *. set (b := d * p_len h) in *. clearbody a b. unfold padToWord, u32.
+        repeat split; try lia.
+        -- intros q lo hi Hq. exfalso. unfold slots, tgt_of, et_of in Hq. rewrite Hk, Hc, Hb, Hsz in Hq. cbn [PointerCount DataSize children] in Hq.
+           change (0 =? 1) with false in Hq. cbv iota zeta in Hq.
+           destruct Hd as [->|[->|[->|[->| ->]]]]; cbn in Hq; destruct Hq.
+    + (* of a composite list *)
+      exists h. split; [exact Hh|]. split; [auto|]. rewrite Esz, Eo.
+      unfold obj_reg, obj_bytes, obj_start. rewrite Hk, Hc. cbn [r_size].
+      rewrite (list_alloc_comp h) by (auto; lia). rewrite (totalSize_wf _ Hw). fold (wc_of h).
+      assert (W0 : 0 <= wc_of h) by (unfold wc_of; destruct Hw as (Hd & Hm & Hp); lia).
+      assert (K0 : 0 <= p_len h * wc_of h) by nia.
+      assert (K1 : i * wc_of h + wc_of h <= p_len h * wc_of h) by nia. assert (K2 : 0 <= i * wc_of h) by nia.
+      assert (PW : padToWord (8 + 8 * (p_len h * wc_of h)) = 8 + 8 * (p_len h * wc_of h)) by (unfold padToWord, u32; lia).
+      rewrite PW. destruct Hw as (Hd & Hm & Hp).
+      assert (E8 : i * (8 * wc_of h) = 8 * (i * wc_of h)) by ring. rewrite E8.
+      assert (WC : wc_of h = DataSize (p_size h) / 8 + PointerCount (p_size h)) by reflexivity.
+      repeat split; try lia.
+      * intros q lo hi Hq Hlo Hhi. destruct (comp_slot h q Hk Hc Hq) as (e & k & He & Hk' & Q1 & Q2).
+        apply (elem_sep (p_off h) (wc_of h) (DataSize (p_size h) / 8) e i k lo hi (snd q)); try lia.
+      * intros j Hj. rewrite Es.
+        replace (p_off h + 8 * (i * wc_of h) + DataSize (p_size h) + 8 * j)
+          with (p_off h + 8 * (i * wc_of h + DataSize (p_size h) / 8) + 8 * j) by lia.
+        apply comp_slot_in; auto; lia.
+Qed.
+
+(* bounds of a section of a table object *)
+Lemma obj_bounds m objs pads h : hinv m objs pads -> In h objs ->
+  0 <= p_seg h < nsegs m /\ 0 <= obj_start h /\ obj_start h <= p_off h /\
+  obj_start h + r_size (obj_reg h) <= zlen (mem m (p_seg h)) /\ zlen (mem m (p_seg h)) <= 4294967288.
+Proof.
+  intros H Hh. destruct (hi_good _ _ _ H h Hh) as [_ (_ & _ & Gi & _)].
+  destruct (in_seg_elim _ _ _ _ Gi) as (G1 & G2 & G3 & G4 & G5). rewrite zlen_bm in G1. rewrite seg_len_bm in G4.
+  pose proof (hi_small _ _ _ H (p_seg h)) as Hsm. unfold maxSegmentSize in Hsm.
+  assert (OS : obj_start h <= p_off h) by (unfold obj_start; destruct (p_comp h); lia). lia.
+Qed.
+
+(* an element of a table list, as List.primitiveElem addresses it *)
+Lemma list_elem_geom m objs pads p i exp addr :
+  hinv m objs pads -> In (core p) objs -> p_valid p = true -> p_kind p = KList ->
+  primitiveElem true p i exp = Ok addr ->
+  (exp = mkOS 0 1 \/ exists n, exp = mkOS n 0 /\ (n = 1 \/ n = 2 \/ n = 4 \/ n = 8)) ->
+  p_off p <= addr /\ addr + totalSize exp <= obj_start (core p) + r_size (obj_reg (core p)) /\
+  (exp = mkOS 0 1 -> In (p_seg p, addr) (slots (core p))) /\
+  (PointerCount exp = 0 -> forall q, In q (slots (core p)) -> addr + DataSize exp <= snd q \/ snd q + 8 <= addr).
+Proof.
+  intros H Hin Hv Ek PE Hexp.
+  destruct (core_facts p) as (C1 & C2 & C3 & C4 & C5 & C6 & C7).
+  destruct (obj_bounds _ _ _ _ H Hin) as (B1 & B2 & B3 & B4 & B5). rewrite C1, C5 in *. cbn [core p_seg p_off] in *.
+  destruct (hi_good _ _ _ H _ Hin) as [_ G]. destruct G as (Sh & _). apply (proj1 C7) in Sh. unfold shape_ok in Sh. rewrite Ek in Sh.
+  rewrite C3.
+  unfold primitiveElem in PE. rewrite Hv in PE. cbn [negb orb] in PE.
+  destruct ((i <? 0) || (i >=? p_len p)) eqn:EI; [discriminate|].
+  destruct Sh as (Hn & [(Hc & Hsh)|(Hc & Hb & Hw & Ht)]); rewrite Hc in PE; cbn [negb andb orb] in PE.
+  - (* plain list *)
+    destruct (p_bit p) eqn:EB; [discriminate|]. cbn [orb] in PE.
+    destruct (negb (os_eqb (p_size p) exp)) eqn:EO; [discriminate|]. rewrite Bool.orb_false_r in PE. cbn [orb] in PE.
+    assert (Esz : p_size p = exp).
+    { unfold os_eqb in EO. destruct (p_size p) as [d c], exp as [d' c']. cbn in EO. f_equal; lia. }
+    rewrite Esz in PE. destruct (element (p_off p) i (totalSize exp)) as [a0|] eqn:EE; [|discriminate].
+    apply Ok_inj in PE. subst a0. apply element_spec in EE. destruct EE as [Ead _].
+    unfold obj_reg, obj_bytes, obj_start in *. rewrite Ek, Hc in *. cbn [r_size] in *.
+    destruct Hexp as [->|(n & -> & Hnn)].
+    + rewrite (list_alloc_plain p 0 1) in * by (auto; lia). change (totalSize (mkOS 0 1)) with 8 in *.
+      unfold padToWord, u32 in *. split; [lia|]. split; [lia|]. split.
+      * intros _. unfold slots, tgt_of, et_of. rewrite Ek, Hc, EB, Esz. cbn. apply in_map. unfold zseq. apply in_map_iff.
+        exists (Z.to_nat i). split; [lia|apply in_seq; lia].
+      * cbn. discriminate.
+    + assert (TS : totalSize (mkOS n 0) = n) by (unfold totalSize, pointerSize, u32; cbn; lia). rewrite TS in *.
+      rewrite (list_alloc_plain p n 0) in * by (auto; lia).
+      assert (K1 : i * n + n <= n * p_len p) by nia. assert (K2 : 0 <= i * n) by nia. assert (K3 : n * p_len p <= 4294967288) by nia.
+      replace ((n + 8 * 0) * p_len p) with (n * p_len p) in * by ring.
+      set (a := i * n) in *. set (b := n * p_len p) in *. clearbody a b. unfold padToWord, u32 in *.
+      split; [lia|]. split; [lia|]. split; [discriminate|].
+      intros _ q Hq. exfalso. unfold slots, tgt_of, et_of in Hq. rewrite Ek, Hc, EB, Esz in Hq. cbn [PointerCount DataSize children] in Hq.
+      change (0 =? 1) with false in Hq. cbv iota zeta in Hq.
+      destruct Hnn as [->|[->|[->| ->]]]; cbn in Hq; destruct Hq.
+  - (* composite list *)
+    rewrite Hb in PE. cbn [orb] in PE.
+    destruct ((DataSize (p_size p) <? DataSize exp) || (PointerCount (p_size p) <? PointerCount exp)) eqn:EO; [discriminate|].
+    rewrite (totalSize_wf _ Hw) in PE. fold (wc_of p) in PE.
+    destruct (element (p_off p) i (8 * wc_of p)) as [a0|] eqn:EE; [|discriminate].
+    apply element_spec in EE. destruct EE as [Ead _].
+    unfold obj_reg, obj_bytes, obj_start in *. rewrite Ek, Hc in *. cbn [r_size] in *.
+    rewrite (list_alloc_comp p) in * by (auto; lia).
+    assert (W0 : 0 <= wc_of p) by (unfold wc_of; destruct Hw as (Hd & Hm & Hp); lia).
+    assert (K0 : 0 <= p_len p * wc_of p) by nia.
+    assert (K1 : i * wc_of p + wc_of p <= p_len p * wc_of p) by nia. assert (K2 : 0 <= i * wc_of p) by nia.
+    assert (PW : padToWord (8 + 8 * (p_len p * wc_of p)) = 8 + 8 * (p_len p * wc_of p)) by (unfold padToWord, u32; lia).
+    rewrite PW in *.
+    assert (E8 : i * (8 * wc_of p) = 8 * (i * wc_of p)) by ring. rewrite E8 in Ead.
+    assert (WC : wc_of p = DataSize (p_size p) / 8 + PointerCount (p_size p)) by reflexivity.
+    destruct Hw as (Hd & Hm & Hp).
+    destruct Hexp as [->|(n & -> & Hnn)]; cbn [DataSize PointerCount] in *.
+    + change (0 <? 1) with true in PE. cbn [andb] in PE.
+      destruct (addSize a0 (DataSize (p_size p))) as [a1|] eqn:EA; [|discriminate].
+      apply Ok_inj in PE. subst a1. apply addSize_spec in EA. destruct EA as [EA _].
+      change (totalSize (mkOS 0 1)) with 8.
+      split; [lia|]. split; [lia|]. split; [|discriminate].
+      intros _. subst addr a0.
+      replace (p_off p + 8 * (i * wc_of p) + DataSize (p_size p))
+        with (p_off p + 8 * (i * wc_of p + DataSize (p_size p) / 8) + 8 * 0) by lia.
+      apply comp_slot_in; auto; lia.
+    + change (0 <? 0) with false in PE. try rewrite Bool.andb_false_r in PE. cbn [andb] in PE. apply Ok_inj in PE. subst a0.
+      assert (TS : totalSize (mkOS n 0) = n) by (unfold totalSize, pointerSize, u32; cbn; lia). rewrite TS.
+      split; [lia|]. split; [lia|]. split; [discriminate|].
+      intros _ q Hq. destruct (comp_slot p q Ek Hc Hq) as (e & k & He & Hk' & Q1 & Q2).
+      apply (elem_sep (p_off p) (wc_of p) (DataSize (p_size p) / 8) e i k addr (addr + n) (snd q)); try lia.
 Qed.
 
 (* the sub-language, as an executable predicate on ops *)
@@ -255,78 +530,61 @@ Definition sub_op (o : bop) : bool :=
   | BNewStruct _ dsz pc => (0 <=? dsz) && (0 <=? pc) && (pc <? 65536)
   | BNewPrim _ sz _ => (sz =? 0) || width_b sz
   | BNewBit _ _ | BNewPList _ _ | BNewVoid _ _ => true
+  | BNewComp _ dsz pc _ => (0 <=? dsz) && (0 <=? pc) && (pc <? 65536)
   | BNewBytes _ v _ => zlen v <? 536870911
   | BSetUint _ off n _ => (0 <=? off) && width_b n
   | BSetBit _ n _ => 0 <=? n
   | BListSetUint _ _ n _ => width_b n
   | BBitSet _ _ _ => true
   | BSetPtr _ i _ => 0 <=? i
+  | BPLSet _ _ _ => true
   | BSetRoot _ => true
+  | BRead _ (OLStruct _ _) => true
   | BRead _ o => ro_op o
   | BRoundTrip _ _ _ | BDump _ => true
   | _ => false
   end.
 
-Lemma alloc_ctor st pads sid sz m1 s1 a h :
-  sinv st pads -> valid_sid st sid = true -> 0 <= sz -> alloc (w_dst (st_w st)) sid sz = Ok (m1, s1, a) ->
+(* the pointer setters of the sub-language store handles of whole objects; storing a list
+   member copies it (see the copy lemmas) *)
+Definition src_handle (o : bop) : option Z :=
+  match o with BSetPtr _ _ hs | BPLSet _ _ hs | BSetRoot hs => Some hs | _ => None end.
+Definition plain_src (st : bstate) (o : bop) : Prop :=
+  match src_handle o with Some hs => p_valid (snd (hget st hs)) = true -> p_member (snd (hget st hs)) = false | None => True end.
+
+Lemma alloc_ctor st objs pads sid sz m1 s1 a h :
+  sinv st objs pads -> valid_sid st sid = true -> 0 <= sz -> alloc (w_dst (st_w st)) sid sz = Ok (m1, s1, a) ->
   nsegs m1 < 4294967296 ->
   h = mkPtr true s1 a (p_len h) (p_size h) maxDepth (p_kind h) false (p_bit h) false -> shape_ok h -> obj_bytes h = sz ->
-  sinv (hpush st (w_set_dst (st_w st) m1) InDst h) pads.
+  sinv (hpush st (w_set_dst (st_w st) m1) InDst h) (objs ++ [core h]) pads.
 Proof.
   intros [H P] Hv Hz EA Hns Eh Sh Eb. apply valid_sid_range in Hv.
-  assert (V : p_valid h = true) by (rewrite Eh; reflexivity).
+  destruct (core_facts h) as (C1 & C2 & C3 & C4 & C5 & C6 & C7).
   split.
-  - rewrite objs_of_push, V. cbn [hpush st_w w_dst w_set_dst].
-    apply (hinv_alloc_obj (w_dst (st_w st)) (objs_of st) pads sid sz m1 s1 a h); auto; rewrite Eh; reflexivity.
-  - apply pool_ok_push; auto. intros _. rewrite Eh. reflexivity.
+  - cbn [hpush st_w w_dst w_set_dst].
+    apply (hinv_alloc_obj (w_dst (st_w st)) objs pads sid sz m1 s1 a (core h)); auto; try (rewrite Eh; reflexivity);
+      try (apply C7; exact Sh); try (rewrite C6; exact Eb).
+  - apply pool_ok_push.
+    + apply (pool_ok_incl objs); auto. intros x Hx. apply in_or_app. left. exact Hx.
+    + right. left. split; [rewrite Eh; reflexivity|]. apply in_or_app. right. left. reflexivity.
 Qed.
 
 (* ------------------------------------------------------------------ every step of the sub-language *)
 Lemma width_b_ok n : width_b n = true -> n = 1 \/ n = 2 \/ n = 4 \/ n = 8.
 Proof. unfold width_b. lia. Qed.
 
-Lemma sinv_same_segs st pads w2 :
-  sinv st pads -> bm_segs (w_dst w2) = bm_segs (w_dst (st_w st)) -> bm_arena (w_dst w2) = bm_arena (w_dst (st_w st)) ->
-  sinv (mkBSt w2 (st_h st)) pads.
+Lemma sinv_same_segs st objs pads w2 :
+  sinv st objs pads -> bm_segs (w_dst w2) = bm_segs (w_dst (st_w st)) -> bm_arena (w_dst w2) = bm_arena (w_dst (st_w st)) ->
+  sinv (mkBSt w2 (st_h st)) objs pads.
 Proof.
-  intros [H P] E1 E2. split; [|exact P]. unfold objs_of. cbn [st_w st_h].
-  destruct H as [Hi Hsm Hns Hg Hin Hpd HdO HdP Hcr Hs].
+  intros [H P] E1 E2. split; [|exact P]. cbn [st_w st_h].
+  destruct H as [Hi Hsm Hns Hg Htg Hin Hpd HdO HdP Hcr Hs].
   assert (EM : forall i, mem (w_dst w2) i = mem (w_dst (st_w st)) i) by (intros i; unfold mem, get_seg; now rewrite E1).
   assert (ED : bm_data (w_dst w2) = bm_data (w_dst (st_w st))) by (unfold bm_data; now rewrite E1).
   constructor; auto; try (rewrite ED; auto).
   - destruct Hi as [A B]. split; [unfold bmsg_wf; now rewrite E1|unfold arena_wf; now rewrite E1, E2].
   - intros i. rewrite EM. apply Hsm.
   - unfold nsegs. rewrite E1. exact Hns.
-Qed.
-
-(* geometry of struct handles *)
-Lemma struct_slots p : p_kind p = KStruct -> os_wf (p_size p) ->
-  slots p = map (fun a => (p_seg p, a)) (zseq (p_off p + DataSize (p_size p)) 8 (Z.to_nat (PointerCount (p_size p)))).
-Proof.
-  intros Ek (Hd & Hm & Hp). unfold slots, tgt_of. rewrite Ek. cbn [children].
-  replace (p_off p + 8 * (DataSize (p_size p) / 8)) with (p_off p + DataSize (p_size p)) by lia. reflexivity.
-Qed.
-
-Lemma struct_slot_in (ms : segs) p i : p_valid p = true -> good ms p -> seg_len ms (p_seg p) <= maxSegmentSize ->
-  p_kind p = KStruct -> 0 <= i < PointerCount (p_size p) ->
-  In (p_seg p, pointerAddress p i) (slots p).
-Proof.
-  intros Hv G Hsl Ek Hi. pose proof G as (Sh & _ & Hin & _). unfold shape_ok in Sh. rewrite Ek in Sh.
-  rewrite struct_slots by auto. apply in_map. unfold zseq. apply in_map_iff. exists (Z.to_nat i). split; [|apply in_seq; lia].
-  destruct Sh as (Hd & Hm & Hp). destruct (in_seg_elim _ _ _ _ Hin) as (G1 & G2 & G3 & G4 & G5).
-  rewrite pointerAddress_eq; try lia.
-  unfold obj_reg, obj_bytes in G4. rewrite Ek in G4. cbn [r_size] in G4.
-  assert (TS : totalSize (p_size p) = DataSize (p_size p) + 8 * PointerCount (p_size p)) by (unfold totalSize, pointerSize, u32; lia).
-  rewrite TS in G4. unfold padToWord, u32 in G4.
-  (* the struct lies inside an addressable segment *)
-  unfold maxSegmentSize in *. lia.
-Qed.
-
-Lemma struct_slots_after_data (ms : segs) p q : p_kind p = KStruct -> os_wf (p_size p) -> In q (slots p) ->
-  p_off p + DataSize (p_size p) <= snd q.
-Proof.
-  intros Ek W Hq. rewrite struct_slots in Hq by auto. apply in_map_iff in Hq. destruct Hq as (a & <- & Ha).
-  unfold zseq in Ha. apply in_map_iff in Ha. destruct Ha as (k & <- & _). cbn [snd]. lia.
 Qed.
 
 Lemma write_ptr_invalid_loc f strict w d o l src fc : p_valid src = false ->
@@ -339,90 +597,197 @@ Proof.
   destruct (walk _ _ _ _ _ _ _ _) as [t rl1]. intros E. inversion E. reflexivity.
 Qed.
 
-Theorem bstep_hinv e st pads o st' out :
-  sinv st pads -> sub_op o = true -> bstep e st o = (Some st', out) ->
-  nsegs (w_dst (st_w st')) < 4294967296 ->
-  exists pads', sinv st' pads'.
+Lemma as_struct_valid p : p_valid (as_struct p) = true -> as_struct p = p /\ p_kind p = KStruct.
 Proof.
-  intros S Hop. pose proof S as [H P]. unfold bstep. destruct o; try discriminate Hop; cbv zeta.
+  unfold as_struct, is_struct. destruct (p_valid p && _) eqn:EE; [|discriminate].
+  intros _. split; [reflexivity|]. destruct (p_kind p); auto; rewrite Bool.andb_false_r in EE; discriminate.
+Qed.
+
+Lemma as_list_valid p : p_valid (as_list p) = true -> as_list p = p /\ p_kind p = KList.
+Proof.
+  unfold as_list, is_list. destruct (p_valid p && _) eqn:EE; [|discriminate].
+  intros _. split; [reflexivity|]. destruct (p_kind p); auto; rewrite Bool.andb_false_r in EE; discriminate.
+Qed.
+
+Lemma hget_dst st objs pads h : sinv st objs pads -> fst (hget st h) = InDst.
+Proof.
+  intros [_ P]. unfold hget.
+  destruct (Nat.lt_ge_cases (Z.to_nat h) (length (st_h st))) as [L|G].
+  - pose proof (nth_In (st_h st) (InDst, nullPtr) L) as Hin.
+    unfold pool_ok in P. rewrite Forall_forall in P. apply (P _ Hin).
+  - rewrite nth_overflow by lia. reflexivity.
+Qed.
+
+(* a data write inside the data section of a struct handle *)
+Lemma struct_data_write st objs pads p addr bs m1 :
+  sinv st objs pads -> view objs p -> p_valid p = true -> p_kind p = KStruct ->
+  p_off p <= addr -> addr + zlen bs <= p_off p + DataSize (p_size p) ->
+  (0 <= p_seg p -> zlen (mem (w_dst (st_w st)) (p_seg p)) < 4294967296 -> addr + zlen bs <= zlen (mem (w_dst (st_w st)) (p_seg p)) ->
+   wrote (w_dst (st_w st)) m1 (p_seg p) addr bs) ->
+  sinv (mkBSt (w_set_dst (st_w st) m1) (st_h st)) objs pads.
+Proof.
+  intros [H P] Vw Hv Ek Hlo Hhi HW.
+  destruct (struct_view_geom _ _ _ p H Vw Hv Ek) as (ho & Hin & Eseg & D0 & P0 & Olo & Ohi & Hsep & _).
+  destruct (obj_bounds _ _ _ _ H Hin) as (B1 & B2 & B3 & B4 & B5). rewrite Eseg in *.
+  split; [|exact P]. cbn [st_h st_w w_dst w_set_dst].
+  apply (hinv_data_write (w_dst (st_w st)) objs pads m1 ho addr bs); auto; try lia.
+  all: try (intros q Hq; apply (Hsep q addr (addr + zlen bs)); auto; lia).
+  rewrite Eseg. apply HW; lia.
+Qed.
+
+(* storing a handle in a pointer slot *)
+Lemma slot_store st objs pads f sd ad hs w1 :
+  sinv st objs pads -> In (sd, ad) ((0, 0) :: flat_map slots objs) ->
+  (p_valid (snd (hget st hs)) = true -> p_member (snd (hget st hs)) = false) ->
+  write_ptr f true (st_w st) sd ad (fst (hget st hs)) (snd (hget st hs)) false = Ok w1 ->
+  nsegs (w_dst w1) < 4294967296 ->
+  exists pads', sinv (mkBSt w1 (st_h st)) objs pads'.
+Proof.
+  intros S Hq Hpl HW Hns. pose proof S as [H P].
+  rewrite (hget_dst st objs pads hs S) in HW.
+  destruct (hget_view st objs pads hs S) as [Vw _]. set (q := snd (hget st hs)) in *.
+  assert (Hsrc : p_valid q = false \/ In (core q) objs /\ p_member q = false).
+  { destruct (p_valid q) eqn:EVq; [right|left; reflexivity].
+    destruct Vw as [V|[[M V]|(h & i & Hh & MA)]]; [congruence|auto|].
+    destruct MA as (_ & _ & _ & _ & _ & _ & _ & _ & Mt). rewrite (Hpl eq_refl) in Mt. discriminate. }
+  destruct f as [|f]; [discriminate HW|].
+  destruct (write_ptr_hinv f (st_w st) objs pads (sd, ad) q w1 H Hq Hsrc HW Hns) as [pads' H'].
+  exists (pads ++ pads'). split; [exact H'|exact P].
+Qed.
+
+Theorem bstep_hinv e st objs pads o st' out :
+  sinv st objs pads -> sub_op o = true -> plain_src st o -> bstep e st o = (Some st', out) ->
+  nsegs (w_dst (st_w st')) < 4294967296 ->
+  exists objs' pads', sinv st' objs' pads'.
+Proof.
+  intros S Hop Hpl. pose proof S as [H P]. unfold bstep. destruct o; try discriminate Hop; cbv zeta.
   - (* NewStruct *)
     destruct (negb (valid_sid st sid)) eqn:EV.
-    { intros E _. injection E as <- _. exists pads. now apply sinv_push_null. }
+    { intros E _. injection E as <- _. exists objs, pads. now apply sinv_push_null. }
     assert (Vs : valid_sid st sid = true) by (destruct (valid_sid st sid); auto; discriminate).
     unfold ctor, newStruct. destruct (negb (os_isValid (mkOS dsz pc))) eqn:EO; [discriminate|].
     unfold os_isValid in EO. cbn [DataSize PointerCount] in *.
     destruct (alloc (w_dst (st_w st)) sid _) as [[[m1 s1] a]| |] eqn:EA; cbn [bind]; try discriminate.
-    intros E Hns. injection E as <- _. cbn [hpush st_w w_dst w_set_dst] in Hns. exists pads.
+    intros E Hns. injection E as <- _. cbn [hpush st_w w_dst w_set_dst] in Hns. eexists _, pads.
     cbn [sub_op] in Hop.
-    eapply (alloc_ctor st pads sid _ m1 s1 a); eauto.
+    eapply (alloc_ctor st objs pads sid _ m1 s1 a); eauto.
     + apply totalSize_nn.
-    + unfold shape_ok. cbn [p_kind p_size]. unfold os_wf, padToWord, u32. cbn [DataSize PointerCount]. lia.
+    + unfold shape_ok. cbn [p_kind p_size p_comp]. unfold os_wf, padToWord, u32. cbn [DataSize PointerCount]. lia.
   - (* NewPrim *)
     destruct (negb (valid_sid st sid)) eqn:EV.
-    { intros E _. injection E as <- _. exists pads. now apply sinv_push_null. }
+    { intros E _. injection E as <- _. exists objs, pads. now apply sinv_push_null. }
     assert (Vs : valid_sid st sid = true) by (destruct (valid_sid st sid); auto; discriminate).
     unfold ctor, newPrimitiveList. destruct ((n <? 0) || (n >=? 536870912)) eqn:EN; [discriminate|].
     destruct (alloc (w_dst (st_w st)) sid _) as [[[m1 s1] a]| |] eqn:EA; cbn [bind]; try discriminate.
-    intros E Hns. injection E as <- _. cbn [hpush st_w w_dst w_set_dst] in Hns. exists pads.
+    intros E Hns. injection E as <- _. cbn [hpush st_w w_dst w_set_dst] in Hns. eexists _, pads.
     cbn [sub_op] in Hop.
     assert (Hsz : sz = 0 \/ sz = 1 \/ sz = 2 \/ sz = 4 \/ sz = 8).
     { destruct (sz =? 0) eqn:E0; [left; lia|right]. apply width_b_ok. cbn in Hop. exact Hop. }
     assert (TU : timesUnchecked sz n = sz * n) by (unfold timesUnchecked, u32; nia).
-    eapply (alloc_ctor st pads sid _ m1 s1 a); eauto.
+    assert (Sh : shape_ok (mkPtr true s1 a n (mkOS sz 0) maxDepth KList false false false)).
+    { unfold shape_ok. cbn [p_kind p_comp p_len p_bit p_size]. split; [lia|]. left. split; [reflexivity|].
+      right. split; [reflexivity|]. right. exists sz. split; [reflexivity|lia]. }
+    eapply (alloc_ctor st objs pads sid _ m1 s1 a); eauto.
     + rewrite TU. nia.
-    + unfold shape_ok. cbn [p_kind p_comp p_len p_bit p_size]. split; [reflexivity|]. split; [lia|].
-      right. split; [reflexivity|]. right. exists sz. split; [reflexivity|lia].
-    + rewrite list_alloc_eq; cbn [p_valid p_kind p_bit p_size p_len DataSize PointerCount]; auto; try lia.
-      unfold shape_ok. cbn [p_kind p_comp p_len p_bit p_size]. split; [reflexivity|]. split; [lia|].
-      right. split; [reflexivity|]. right. exists sz. split; [reflexivity|lia].
+    + rewrite list_alloc_eq; cbn [p_valid p_kind p_bit p_size p_len p_comp DataSize PointerCount]; auto; try lia.
   - (* NewBit *)
     destruct (negb (valid_sid st sid)) eqn:EV.
-    { intros E _. injection E as <- _. exists pads. now apply sinv_push_null. }
+    { intros E _. injection E as <- _. exists objs, pads. now apply sinv_push_null. }
     assert (Vs : valid_sid st sid = true) by (destruct (valid_sid st sid); auto; discriminate).
     unfold ctor, newBitList. destruct ((n <? 0) || (n >=? 536870912)) eqn:EN; [discriminate|].
     destruct (alloc (w_dst (st_w st)) sid _) as [[[m1 s1] a]| |] eqn:EA; cbn [bind]; try discriminate.
-    intros E Hns. injection E as <- _. cbn [hpush st_w w_dst w_set_dst] in Hns. exists pads.
+    intros E Hns. injection E as <- _. cbn [hpush st_w w_dst w_set_dst] in Hns. eexists _, pads.
     assert (Sh : shape_ok (mkPtr true s1 a n (mkOS 0 0) maxDepth KList false true false)).
-    { unfold shape_ok. cbn [p_kind p_comp p_len p_bit p_size]. split; [reflexivity|]. split; [lia|]. left. auto. }
-    eapply (alloc_ctor st pads sid _ m1 s1 a); eauto; try (unfold bitListSize, u32; lia); try (rewrite list_alloc_eq; auto).
+    { unfold shape_ok. cbn [p_kind p_comp p_len p_bit p_size]. split; [lia|]. left. split; [reflexivity|]. left. auto. }
+    eapply (alloc_ctor st objs pads sid _ m1 s1 a); eauto; try (unfold bitListSize, u32; lia); try (rewrite list_alloc_eq; auto).
   - (* NewPList *)
     destruct (negb (valid_sid st sid)) eqn:EV.
-    { intros E _. injection E as <- _. exists pads. now apply sinv_push_null. }
+    { intros E _. injection E as <- _. exists objs, pads. now apply sinv_push_null. }
     assert (Vs : valid_sid st sid = true) by (destruct (valid_sid st sid); auto; discriminate).
     unfold ctor, newPointerList. destruct (times 8 n) as [total|] eqn:ET; [|discriminate].
     destruct (alloc (w_dst (st_w st)) sid total) as [[[m1 s1] a]| |] eqn:EA; cbn [bind]; try discriminate.
-    intros E Hns. injection E as <- _. cbn [hpush st_w w_dst w_set_dst] in Hns. exists pads.
+    intros E Hns. injection E as <- _. cbn [hpush st_w w_dst w_set_dst] in Hns. eexists _, pads.
     unfold times in ET. cbv zeta in ET.
     destruct ((8 * n >? maxSegmentSize) || (8 * n <? 0)) eqn:EB; [discriminate|].
     assert (total = 8 * n) by congruence. subst total. unfold maxSegmentSize in EB.
     assert (Sh : shape_ok (mkPtr true s1 a n (mkOS 0 1) maxDepth KList false false false)).
-    { unfold shape_ok. cbn [p_kind p_comp p_len p_bit p_size]. split; [reflexivity|]. split; [lia|]. right. split; [reflexivity|]. left. reflexivity. }
-    eapply (alloc_ctor st pads sid _ m1 s1 a); eauto; try lia; try (rewrite list_alloc_eq; auto; cbn; lia).
+    { unfold shape_ok. cbn [p_kind p_comp p_len p_bit p_size]. split; [lia|]. left. split; [reflexivity|]. right. split; [reflexivity|]. left. reflexivity. }
+    eapply (alloc_ctor st objs pads sid _ m1 s1 a); eauto; try lia; try (rewrite list_alloc_eq; auto; cbn; lia).
+  - (* NewComp *)
+    destruct (negb (valid_sid st sid)) eqn:EV.
+    { intros E _. injection E as <- _. exists objs, pads. now apply sinv_push_null. }
+    assert (Vs : valid_sid st sid = true) by (destruct (valid_sid st sid); auto; discriminate).
+    cbn [sub_op] in Hop.
+    unfold ctor, newCompositeList. destruct (negb (os_isValid (mkOS dsz pc))) eqn:EO; [discriminate|].
+    unfold os_isValid in EO. cbn [DataSize PointerCount] in *.
+    destruct ((n <? 0) || (n >=? 536870912)) eqn:EN; [discriminate|].
+    set (sz := mkOS (padToWord dsz) pc).
+    assert (Hw : os_wf sz) by (unfold sz, os_wf, padToWord, u32; cbn [DataSize PointerCount]; lia).
+    rewrite (totalSize_wf _ Hw).
+    set (wc := DataSize sz / 8 + PointerCount sz).
+    assert (W0 : 0 <= wc) by (unfold wc; destruct Hw as (Hd & Hm & Hp); lia).
+    destruct (times (8 * wc) n) as [total|] eqn:ET; [|discriminate].
+    unfold times in ET. cbv zeta in ET.
+    destruct ((8 * wc * n >? maxSegmentSize) || (8 * wc * n <? 0)) eqn:EB; [discriminate|].
+    assert (total = 8 * wc * n) by congruence. subst total. unfold maxSegmentSize in *.
+    destruct (8 * wc * n >? 4294967288 - 8) eqn:EM; [discriminate|].
+    assert (K0 : 0 <= n * wc) by nia.
+    assert (U : u32 (8 + 8 * wc * n) = 8 + 8 * (n * wc)) by (unfold u32; lia). rewrite U.
+    destruct (alloc (w_dst (st_w st)) sid _) as [[[m1 s1] a]| |] eqn:EA; cbn [bind]; try discriminate.
+    destruct (of_opt_panic (rawStructPointer n sz)) as [tag| |] eqn:ETag; cbn [bind]; try discriminate.
+    destruct (writeRawPointer m1 s1 a tag) as [m2| |] eqn:EW; cbn [bind]; try discriminate.
+    intros E Hns. injection E as <- _. cbn [hpush st_w w_dst w_set_dst] in Hns.
+    set (h := mkPtr true s1 (addSizeUnchecked a 8) n sz maxDepth KList true false false).
+    exists (objs ++ [core h]), pads.
+    apply valid_sid_range in Vs.
+    assert (Hz : 0 <= 8 + 8 * (n * wc)) by lia.
+    destruct (alloc_keeps _ _ _ _ _ _ (hi_inv _ _ _ H) Vs Hz EA) as (_ & I1 & N1 & S1 & AD & L1 & _ & _ & _ & MX).
+    unfold maxSegmentSize in MX. pose proof (zlen_nonneg (mem (w_dst (st_w st)) s1)) as Z0.
+    assert (PW : padToWord (8 + 8 * (n * wc)) = 8 + 8 * (n * wc)) by (unfold padToWord, u32; lia). rewrite PW in L1.
+    assert (EA8 : addSizeUnchecked a 8 = a + 8) by (unfold addSizeUnchecked, u32; lia).
+    assert (Sh : shape_ok (core h)).
+    { unfold shape_ok. cbn [core h p_kind p_comp p_len p_bit p_size]. split; [lia|]. right.
+      split; [reflexivity|]. split; [reflexivity|]. split; [exact Hw|]. unfold wc_of. cbn [core h p_size]. fold wc. lia. }
+    assert (N12 : nsegs m2 = nsegs m1).
+    { assert (S10 : 0 <= s1) by lia. destruct (writeRawPointer_keeps _ _ _ _ _ S10 I1 EW) as (_ & _ & X & _). exact X. }
+    split.
+    + cbn [st_w w_dst w_set_dst].
+      apply (hinv_alloc_comp (w_dst (st_w st)) objs pads sid (8 + 8 * (n * wc)) m1 s1 a tag m2 (core h)); auto; try reflexivity; try lia.
+      * cbn [core h p_len p_size]. destruct (rawStructPointer n sz); [cbn in ETag; congruence|discriminate].
+      * unfold obj_bytes. cbn [core h p_kind]. rewrite (list_alloc_comp (core h)); try reflexivity; auto; unfold wc_of; cbn [core h p_size p_len]; fold wc; lia.
+    + apply pool_ok_push.
+      * apply (pool_ok_incl objs); auto. intros x Hx. apply in_or_app. left. exact Hx.
+      * right. left. split; [reflexivity|]. apply in_or_app. right. left. reflexivity.
   - (* NewVoid *)
     destruct (negb (valid_sid st sid)) eqn:EV.
-    { intros E _. injection E as <- _. exists pads. now apply sinv_push_null. }
+    { intros E _. injection E as <- _. exists objs, pads. now apply sinv_push_null. }
     assert (Vs : valid_sid st sid = true) by (destruct (valid_sid st sid); auto; discriminate).
     apply valid_sid_range in Vs.
     unfold newVoidList. destruct ((n <? 0) || (n >=? 536870912)) eqn:EN.
-    { intros E _. injection E as <- _. exists pads. now apply sinv_push_null. }
-    intros E Hns. injection E as <- _. exists pads.
+    { intros E _. injection E as <- _. exists objs, pads. now apply sinv_push_null. }
+    intros E Hns. injection E as <- _.
     set (h := mkPtr true sid 0 n (mkOS 0 0) maxDepth KList false false false).
-    assert (Sh : shape_ok h).
-    { unfold shape_ok, h. cbn [p_kind p_comp p_len p_bit p_size]. split; [reflexivity|]. split; [lia|].
+    exists (objs ++ [core h]), pads.
+    assert (Sh : shape_ok (core h)).
+    { unfold shape_ok, h. cbn [core p_kind p_comp p_len p_bit p_size]. split; [lia|]. left. split; [reflexivity|].
       right. split; [reflexivity|]. right. exists 0. split; [reflexivity|lia]. }
-    assert (OB : obj_bytes h = 0).
-    { rewrite list_alloc_eq; [|reflexivity|exact Sh|reflexivity]. unfold h. cbn [p_bit p_size p_len DataSize PointerCount]. lia. }
-    split; [|apply pool_ok_push; auto].
-    rewrite objs_of_push. cbn [p_valid h hpush st_w].
-    apply (hinv_add_obj (w_dst (st_w st)) (objs_of st) pads (w_dst (st_w st)) h); auto;
-      try apply keeps_refl; try apply (hi_inv _ _ _ H); try apply (hi_small _ _ _ H); try lia; try apply (hi_nsegs _ _ _ H).
-    + split; [exact Sh|]. pose proof (hi_nsegs _ _ _ H). split; [cbn; lia|]. split; [|cbn; lia].
-      unfold obj_reg. cbn [r_size]. rewrite OB. cbn [p_seg p_off h]. change (padToWord 0) with 0.
-      apply in_seg_intro; rewrite ?zlen_bm, ?seg_len_bm; try lia. apply zlen_nonneg.
-    + intros q Hq. unfold slots, tgt_of, h in Hq. cbn in Hq. destruct Hq.
+    assert (OB : obj_bytes (core h) = 0).
+    { rewrite list_alloc_eq; [|reflexivity|exact Sh|reflexivity|reflexivity]. unfold h. cbn [core p_bit p_size p_len DataSize PointerCount]. lia. }
+    split.
+    + cbn [hpush st_w].
+      apply (hinv_add_obj (w_dst (st_w st)) objs pads (w_dst (st_w st)) (core h)); auto;
+        try apply keeps_refl; try apply (hi_inv _ _ _ H); try apply (hi_small _ _ _ H); try lia; try apply (hi_nsegs _ _ _ H).
+      * split; [exact Sh|]. pose proof (hi_nsegs _ _ _ H). split; [cbn; lia|]. split; [|cbn; lia].
+        unfold obj_reg. cbn [r_size]. rewrite OB. cbn [core p_seg p_off h obj_start p_comp]. change (padToWord 0) with 0.
+        apply in_seg_intro; rewrite ?zlen_bm, ?seg_len_bm; try lia. apply zlen_nonneg.
+      * intros _ X. discriminate X.
+      * intros q Hq. unfold slots, tgt_of, h in Hq. cbn in Hq. destruct Hq.
+    + apply pool_ok_push.
+      * apply (pool_ok_incl objs); auto. intros x Hx. apply in_or_app. left. exact Hx.
+      * right. left. split; [reflexivity|]. apply in_or_app. right. left. reflexivity.
   - (* NewBytes *)
     destruct (negb (valid_sid st sid)) eqn:EV.
-    { intros E _. injection E as <- _. exists pads. now apply sinv_push_null. }
+    { intros E _. injection E as <- _. exists objs, pads. now apply sinv_push_null. }
     assert (Vs : valid_sid st sid = true) by (destruct (valid_sid st sid); auto; discriminate).
     cbn [sub_op] in Hop. pose proof (zlen_nonneg v) as Zv.
     set (n := s32 (zlen v + (if nul then 1 else 0))).
@@ -432,92 +797,70 @@ Proof.
     destruct (alloc (w_dst (st_w st)) sid _) as [[[m1 s1] a]| |] eqn:EA; cbn [bind]; try discriminate.
     cbn [p_seg p_off].
     destruct (seg_write m1 s1 a v) as [m2| |] eqn:EW; cbn [bind]; try discriminate.
-    intros E Hns. injection E as <- _. cbn [hpush st_w w_dst w_set_dst] in Hns. exists pads.
+    intros E Hns. injection E as <- _. cbn [hpush st_w w_dst w_set_dst] in Hns.
     set (h := mkPtr true s1 a n (mkOS 1 0) maxDepth KList false false false).
+    exists (objs ++ [core h]), pads.
     assert (Sh : shape_ok h).
-    { unfold shape_ok, h. cbn [p_kind p_comp p_len p_bit p_size]. split; [reflexivity|]. split; [lia|].
+    { unfold shape_ok, h. cbn [p_kind p_comp p_len p_bit p_size]. split; [lia|]. left. split; [reflexivity|].
       right. split; [reflexivity|]. right. exists 1. split; [reflexivity|lia]. }
     assert (TU : timesUnchecked 1 n = n) by (unfold timesUnchecked, u32; lia).
     assert (OB : obj_bytes h = n).
-    { rewrite list_alloc_eq; [|reflexivity|exact Sh|reflexivity]. unfold h. cbn [p_bit p_size p_len DataSize PointerCount]. lia. }
+    { rewrite list_alloc_eq; [|reflexivity|exact Sh|reflexivity|reflexivity]. unfold h. cbn [p_bit p_size p_len DataSize PointerCount]. lia. }
     assert (W : wrote m1 m2 s1 a v).
     { assert (Hz0 : 0 <= timesUnchecked 1 n) by (rewrite TU; lia).
       apply seg_write_wrote; auto; [|lia].
       destruct (alloc_keeps _ _ _ _ _ _ (hi_inv _ _ _ H) (valid_sid_range _ _ Vs) Hz0 EA) as (_ & _ & _ & X & _). lia. }
     assert (N12 : nsegs m2 = nsegs m1) by (unfold nsegs; apply (wrote_nsegs _ _ _ _ _ W)).
-    assert (S1 : sinv (hpush st (w_set_dst (st_w st) m1) InDst h) pads).
-    { apply (alloc_ctor st pads sid (timesUnchecked 1 n) m1 s1 a h); auto; try (rewrite TU; lia); try lia; try reflexivity; try (rewrite OB, TU; reflexivity). }
-    destruct S1 as [H1 P1]. split; [|apply pool_ok_push; auto].
-    rewrite objs_of_push in *. cbn [p_valid h hpush st_w w_dst w_set_dst] in *.
-    apply (hinv_data_write m1 _ pads m2 h a v); auto.
-    + apply in_or_app. right. left. reflexivity.
-    + cbn [p_seg h]. destruct (hi_good _ _ _ H1 h ltac:(apply in_or_app; right; left; reflexivity)) as [_ (_ & X & _)]. cbn in X. lia.
-    + cbn [p_off h]. lia.
-    + cbn [p_off h]. unfold obj_reg. cbn [r_size]. rewrite OB. unfold padToWord, u32. destruct nul; lia.
+    assert (S1 : sinv (hpush st (w_set_dst (st_w st) m1) InDst h) (objs ++ [core h]) pads).
+    { apply (alloc_ctor st objs pads sid (timesUnchecked 1 n) m1 s1 a h); auto; try (rewrite TU; lia); try lia; try reflexivity; try (rewrite OB, TU; reflexivity). }
+    destruct S1 as [H1 P1]. split; [|exact P1].
+    cbn [p_valid h hpush st_w w_dst w_set_dst] in *.
+    assert (Hin : In (core h) (objs ++ [core h])) by (apply in_or_app; right; left; reflexivity).
+    apply (hinv_data_write m1 _ pads m2 (core h) a v); auto.
+    + cbn [core p_seg h]. destruct (hi_good _ _ _ H1 _ Hin) as [_ (_ & X & _)]. cbn in X. lia.
+    + cbn [core p_off h]. lia.
+    + unfold obj_reg, obj_start. cbn [r_size]. change (obj_bytes (core h)) with (obj_bytes h). rewrite OB. cbn [core p_off p_comp h].
+      unfold padToWord, u32. destruct nul; lia.
     + intros q Hq. unfold slots, tgt_of, h in Hq. cbn in Hq. destruct Hq.
   - (* SetUint *)
     destruct (hget st h) as [l p] eqn:EH. cbn [sub_op] in Hop.
     unfold dset. destruct (set_in (st_w st) l _) as [w1| |] eqn:ES; intros E Hns; injection E as <- _;
-      try (exists pads; exact S).
-    exists pads.
+      try (exists objs, pads; exact S).
+    exists objs, pads.
     apply andb_prop in Hop. destruct Hop as [Ho1 Ho2].
     assert (Hoff : 0 <= off) by lia. assert (Hn : n = 1 \/ n = 2 \/ n = 4 \/ n = 8) by (apply width_b_ok; exact Ho2).
-    (* only a valid struct handle of the message under construction gets this far *)
+    pose proof (hget_dst st objs pads h S) as Hl. rewrite EH in Hl. cbn in Hl. subst l.
+    destruct (hget_view st objs pads h S) as [Vw _]. rewrite EH in Vw. cbn [snd] in Vw.
     assert (Hval : p_valid (as_struct p) = true).
-    { unfold set_in in ES. destruct l.
-      - unfold lift0, struct_set_uint, dataAddress in ES. destruct (negb (p_valid (as_struct p)) || _) eqn:EE; cbn [bind] in ES; [discriminate|].
-        destruct (p_valid (as_struct p)); auto; discriminate.
-      - unfold struct_set_uint, dataAddress in ES. destruct (negb (p_valid (as_struct p)) || _) eqn:EE; cbn [bind] in ES; [discriminate|].
-        destruct (p_valid (as_struct p)); auto; discriminate. }
-    assert (Eas : as_struct p = p /\ p_kind p = KStruct).
-    { unfold as_struct, is_struct in *. destruct (p_valid p && _) eqn:EE; [|discriminate Hval].
-      split; [reflexivity|]. destruct (p_kind p); auto; rewrite Bool.andb_false_r in EE; discriminate. }
-    destruct Eas as [Eas Ek]. rewrite Eas in *.
-    assert (HP : p = snd (hget st h)) by (rewrite EH; reflexivity).
-    destruct (hget_obj st pads h S ltac:(rewrite <- HP; exact Hval)) as (Hin & Hmem & Hl). rewrite <- HP in Hin. rewrite EH in Hl. cbn in Hl. subst l.
-    destruct (hi_good _ _ _ H p Hin) as [_ G]. pose proof G as (Sh & Gs & Gi & Go). unfold shape_ok in Sh. rewrite Ek in Sh.
-    destruct Sh as (Hd & Hm & Hp'). destruct (in_seg_elim _ _ _ _ Gi) as (G1 & G2 & G3 & G4 & G5).
-    assert (TS : totalSize (p_size p) = DataSize (p_size p) + 8 * PointerCount (p_size p)) by (unfold totalSize, pointerSize, u32; lia).
-    unfold obj_reg, obj_bytes in G3, G4. rewrite Ek in G3, G4. cbn [r_size] in G3, G4. rewrite TS in G3, G4.
-    assert (PW : padToWord (DataSize (p_size p) + 8 * PointerCount (p_size p)) = DataSize (p_size p) + 8 * PointerCount (p_size p)) by (unfold padToWord, u32; lia).
-    rewrite PW in G3, G4. rewrite seg_len_bm in G4. pose proof (hi_small _ _ _ H (p_seg p)) as Hsm. unfold maxSegmentSize in Hsm.
+    { unfold set_in, lift0, struct_set_uint, dataAddress in ES. destruct (negb (p_valid (as_struct p)) || _) eqn:EE; cbn [bind] in ES; [discriminate|].
+      destruct (p_valid (as_struct p)); auto; discriminate. }
+    destruct (as_struct_valid p Hval) as [Eas Ek]. rewrite Eas in *.
     unfold set_in, lift0, struct_set_uint, dataAddress in ES.
     destruct (negb (p_valid p) || (u32 (off + n) >? DataSize (p_size p))) eqn:EE; cbn [bind] in ES; [discriminate|].
     destruct (addOffset (p_off p) off) as [addr|] eqn:EA; cbn [bind] in ES; [|discriminate].
     apply addOffset_spec in EA. destruct EA as [EA1 EA2].
-    assert (Eu : u32 (off + n) = off + n) by (unfold u32; lia).
-    assert (Ead : addr = p_off p + off) by (subst addr; unfold u32; lia).
     destruct (seg_write (w_dst (st_w st)) (p_seg p) addr _) as [m1| |] eqn:EW; cbn [bind] in ES; try discriminate.
     apply Ok_inj in ES. subst w1.
     assert (Ln : zlen (le_encode (Z.to_nat n) v) = n) by (apply zlen_le_encode; lia).
-    apply seg_write_wrote in EW; [|lia|rewrite Ln; lia].
-    split; [|exact P]. unfold objs_of. cbn [st_h st_w w_dst w_set_dst]. fold (objs_of st).
-    apply (hinv_data_write (w_dst (st_w st)) (objs_of st) pads m1 p addr (le_encode (Z.to_nat n) v)); auto; try lia.
-    + rewrite Ln. unfold obj_reg, obj_bytes. rewrite Ek. cbn [r_size]. rewrite TS, PW. lia.
-    + intros q Hq. rewrite Ln. pose proof (struct_slots_after_data (bm_data (w_dst (st_w st))) p q Ek (conj Hd (conj Hm Hp')) Hq). lia.
+    destruct (struct_view_geom _ _ _ p H Vw Hval Ek) as (ho & Hin & Eseg & D0 & P0 & Olo & Ohi & _).
+    destruct (obj_bounds _ _ _ _ H Hin) as (B1 & B2 & B3 & B4 & B5). rewrite Eseg in *.
+    assert (Eu : u32 (off + n) = off + n) by (unfold u32; lia).
+    assert (Ead : addr = p_off p + off) by (subst addr; unfold u32; lia).
+    apply (struct_data_write st objs pads p addr (le_encode (Z.to_nat n) v) m1); auto; try lia.
+    intros X1 X2 X3. apply seg_write_wrote; auto; lia.
   - (* SetBit *)
     destruct (hget st h) as [l p] eqn:EH. cbn [sub_op] in Hop.
     unfold dset. destruct (set_in (st_w st) l _) as [w1| |] eqn:ES; intros E Hns; injection E as <- _;
-      try (exists pads; exact S).
-    exists pads. assert (Hn0 : 0 <= n) by lia.
+      try (exists objs, pads; exact S).
+    exists objs, pads. assert (Hn0 : 0 <= n) by lia.
+    pose proof (hget_dst st objs pads h S) as Hl. rewrite EH in Hl. cbn in Hl. subst l.
+    destruct (hget_view st objs pads h S) as [Vw _]. rewrite EH in Vw. cbn [snd] in Vw.
     assert (Hval : p_valid (as_struct p) = true).
-    { unfold set_in in ES. destruct l.
-      - unfold lift0, struct_set_bit in ES. destruct (negb (p_valid (as_struct p) && _)) eqn:EE; [discriminate|].
-        destruct (p_valid (as_struct p)); auto; discriminate.
-      - unfold struct_set_bit in ES. destruct (negb (p_valid (as_struct p) && _)) eqn:EE; [discriminate|].
-        destruct (p_valid (as_struct p)); auto; discriminate. }
-    assert (Eas : as_struct p = p /\ p_kind p = KStruct).
-    { unfold as_struct, is_struct in *. destruct (p_valid p && _) eqn:EE; [|discriminate Hval].
-      split; [reflexivity|]. destruct (p_kind p); auto; rewrite Bool.andb_false_r in EE; discriminate. }
-    destruct Eas as [Eas Ek]. rewrite Eas in *.
-    assert (HP : p = snd (hget st h)) by (rewrite EH; reflexivity).
-    destruct (hget_obj st pads h S ltac:(rewrite <- HP; exact Hval)) as (Hin & Hmem & Hl). rewrite <- HP in Hin. rewrite EH in Hl. cbn in Hl. subst l.
-    destruct (hi_good _ _ _ H p Hin) as [_ G]. pose proof G as (Sh & Gs & Gi & Go). unfold shape_ok in Sh. rewrite Ek in Sh.
-    destruct Sh as (Hd & Hm & Hp'). destruct (in_seg_elim _ _ _ _ Gi) as (G1 & G2 & G3 & G4 & G5).
-    assert (TS : totalSize (p_size p) = DataSize (p_size p) + 8 * PointerCount (p_size p)) by (unfold totalSize, pointerSize, u32; lia).
-    unfold obj_reg, obj_bytes in G3, G4. rewrite Ek in G3, G4. cbn [r_size] in G3, G4. rewrite TS in G3, G4.
-    assert (PW : padToWord (DataSize (p_size p) + 8 * PointerCount (p_size p)) = DataSize (p_size p) + 8 * PointerCount (p_size p)) by (unfold padToWord, u32; lia).
-    rewrite PW in G3, G4. rewrite seg_len_bm in G4. pose proof (hi_small _ _ _ H (p_seg p)) as Hsm. unfold maxSegmentSize in Hsm.
+    { unfold set_in, lift0, struct_set_bit in ES. destruct (negb (p_valid (as_struct p) && _)) eqn:EE; [discriminate|].
+      destruct (p_valid (as_struct p)); auto; discriminate. }
+    destruct (as_struct_valid p Hval) as [Eas Ek]. rewrite Eas in *.
+    destruct (struct_view_geom _ _ _ p H Vw Hval Ek) as (ho & Hin & Eseg & D0 & P0 & Olo & Ohi & _).
+    destruct (obj_bounds _ _ _ _ H Hin) as (B1 & B2 & B3 & B4 & B5). rewrite Eseg in *.
     unfold set_in, lift0, struct_set_bit in ES.
     destruct (negb (p_valid p && (n <? u32 (DataSize (p_size p) * 8)))) eqn:EE; [discriminate|].
     assert (Hnb : n < DataSize (p_size p) * 8) by (unfold u32 in EE; destruct (p_valid p); cbn in EE; [lia|discriminate]).
@@ -527,84 +870,55 @@ Proof.
     destruct (readUintN _ addr 1) as [b| |]; cbn [bind] in ES; try discriminate.
     destruct (seg_write (w_dst (st_w st)) (p_seg p) addr _) as [m1| |] eqn:EW; cbn [bind] in ES; try discriminate.
     apply Ok_inj in ES. subst w1.
-    apply seg_write_wrote in EW; [|lia|cbn; lia].
-    split; [|exact P]. unfold objs_of. cbn [st_h st_w w_dst w_set_dst]. fold (objs_of st).
-    apply (hinv_data_write (w_dst (st_w st)) (objs_of st) pads m1 p addr [set_bit_in b (n mod 8) v]); auto; try lia.
-    + change (zlen [set_bit_in b (n mod 8) v]) with 1. unfold obj_reg, obj_bytes. rewrite Ek. cbn [r_size]. rewrite TS, PW. lia.
-    + intros q Hq. change (zlen [set_bit_in b (n mod 8) v]) with 1.
-      pose proof (struct_slots_after_data (bm_data (w_dst (st_w st))) p q Ek (conj Hd (conj Hm Hp')) Hq). lia.
+    apply (struct_data_write st objs pads p addr [set_bit_in b (n mod 8) v] m1); auto;
+      try (change (zlen [set_bit_in b (n mod 8) v]) with 1; lia).
+    intros X1 X2 X3. apply seg_write_wrote; auto; change (zlen [set_bit_in b (n mod 8) v]) with 1 in *; lia.
   - (* UIntNList.Set *)
     destruct (hget st h) as [l p] eqn:EH. cbn [sub_op] in Hop.
     unfold dset. destruct (set_in (st_w st) l _) as [w1| |] eqn:ES; intros E Hns; injection E as <- _;
-      try (exists pads; exact S).
-    exists pads. assert (Hn : n = 1 \/ n = 2 \/ n = 4 \/ n = 8) by (apply width_b_ok; exact Hop).
-    assert (PE : exists addr, primitiveElem true (as_list p) i (mkOS n 0) = Ok addr).
-    { unfold set_in in ES. destruct l; [unfold lift0 in ES|]; unfold list_set_uint in ES;
-        destruct (primitiveElem true (as_list p) i (mkOS n 0)) as [addr| |]; try discriminate; eauto. }
-    destruct PE as [addr PE].
+      try (exists objs, pads; exact S).
+    exists objs, pads. assert (Hn : n = 1 \/ n = 2 \/ n = 4 \/ n = 8) by (apply width_b_ok; exact Hop).
+    pose proof (hget_dst st objs pads h S) as Hl. rewrite EH in Hl. cbn in Hl. subst l.
+    destruct (hget_view st objs pads h S) as [Vw _]. rewrite EH in Vw. cbn [snd] in Vw.
+    unfold set_in, lift0, list_set_uint in ES.
+    destruct (primitiveElem true (as_list p) i (mkOS n 0)) as [addr| |] eqn:PE; try discriminate.
     assert (Hval : p_valid (as_list p) = true).
     { unfold primitiveElem in PE. destruct (p_valid (as_list p)); auto. cbn in PE. discriminate. }
-    assert (Eas : as_list p = p /\ p_kind p = KList).
-    { unfold as_list, is_list in *. destruct (p_valid p && _) eqn:EE; [|discriminate Hval].
-      split; [reflexivity|]. destruct (p_kind p); auto; rewrite Bool.andb_false_r in EE; discriminate. }
-    destruct Eas as [Eas Ek]. rewrite Eas in *.
-    assert (HP : p = snd (hget st h)) by (rewrite EH; reflexivity).
-    destruct (hget_obj st pads h S ltac:(rewrite <- HP; exact Hval)) as (Hin & Hmem & Hl). rewrite <- HP in Hin. rewrite EH in Hl. cbn in Hl. subst l.
-    destruct (hi_good _ _ _ H p Hin) as [_ G]. pose proof G as (Sh & Gs & Gi & Go).
-    pose proof Sh as Sh'. unfold shape_ok in Sh'. rewrite Ek in Sh'. destruct Sh' as (Hc & Hlen & Hk).
-    (* the element address and the list's shape *)
-    unfold primitiveElem in PE. rewrite Hval, Hc in PE. cbn [negb orb andb] in PE.
-    destruct ((i <? 0) || (i >=? p_len p)) eqn:EI; [discriminate|].
-    destruct (p_bit p) eqn:EB; [discriminate|]. cbn [orb] in PE.
-    destruct (negb (os_eqb (p_size p) (mkOS n 0))) eqn:EO; [discriminate|]. cbn [orb] in PE.
-    assert (Esz : p_size p = mkOS n 0).
-    { unfold os_eqb in EO. cbn [DataSize PointerCount] in EO. destruct (p_size p) as [d c]. cbn in EO. f_equal; lia. }
-    assert (TS : totalSize (p_size p) = n) by (rewrite Esz; unfold totalSize, pointerSize, u32; cbn; lia).
-    rewrite TS in PE. destruct (element (p_off p) i n) as [a0|] eqn:EE; [|discriminate].
-    apply Ok_inj in PE. subst a0.
-    apply element_spec in EE. destruct EE as [Ead _].
-    assert (OB : obj_bytes p = n * p_len p).
-    { rewrite list_alloc_eq; auto. rewrite EB, Esz. cbn [DataSize PointerCount]. lia. }
-    destruct (in_seg_elim _ _ _ _ Gi) as (G1 & G2 & G3 & G4 & G5). unfold obj_reg in G3, G4. cbn [r_size] in G3, G4. rewrite OB in G3, G4.
-    unfold set_in, lift0, list_set_uint in ES. unfold primitiveElem in ES. rewrite Hval, Hc in ES. cbn [negb orb andb] in ES.
-    rewrite EI, EB in ES. cbn [orb] in ES. rewrite EO in ES. cbn [orb] in ES. rewrite TS in ES.
-    assert (EE2 : element (p_off p) i n = Some addr) by (apply element_spec; split; [exact Ead|unfold maxSegmentSize; pose proof (hi_small _ _ _ H (p_seg p)); unfold maxSegmentSize in *; rewrite seg_len_bm in G4; unfold padToWord, u32 in G4; nia]).
-    rewrite EE2 in ES.
+    destruct (as_list_valid p Hval) as [Eas Ek]. rewrite Eas in *.
+    destruct (list_view objs p Vw Hval Ek) as [Hin _].
+    destruct (list_elem_geom _ _ _ p i (mkOS n 0) addr H Hin Hval Ek PE ltac:(right; exists n; auto)) as (E1 & E2 & _ & E4).
+    destruct (obj_bounds _ _ _ _ H Hin) as (B1 & B2 & B3 & B4 & B5). cbn [core p_seg p_off] in *.
+    assert (TS : totalSize (mkOS n 0) = n) by (unfold totalSize, pointerSize, u32; cbn; lia). rewrite TS in E2.
     destruct (seg_write (w_dst (st_w st)) (p_seg p) addr _) as [m1| |] eqn:EW; cbn [bind] in ES; try discriminate.
     apply Ok_inj in ES. subst w1.
     assert (Ln : zlen (le_encode (Z.to_nat n) v) = n) by (apply zlen_le_encode; lia).
     apply seg_write_wrote in EW; [|lia|rewrite Ln; lia].
-    split; [|exact P]. unfold objs_of. cbn [st_h st_w w_dst w_set_dst]. fold (objs_of st).
-    apply (hinv_data_write (w_dst (st_w st)) (objs_of st) pads m1 p addr (le_encode (Z.to_nat n) v)); auto; try lia.
-    + rewrite Ln. unfold obj_reg. cbn [r_size]. rewrite OB.
-      assert (K1 : i * n + n <= n * p_len p) by nia. assert (K2 : 0 <= n * p_len p <= 4294967288) by nia.
-      set (k := n * p_len p) in *. clearbody k. unfold padToWord, u32. lia.
-    + intros q Hq. exfalso. unfold slots, tgt_of, et_of in Hq. rewrite Ek, EB, Esz in Hq. cbn [PointerCount DataSize children] in Hq.
-      change (0 =? 1) with false in Hq. cbv iota zeta in Hq.
-      destruct Hn as [->|[->|[->| ->]]]; cbn in Hq; destruct Hq.
+    split; [|exact P]. cbn [st_h st_w w_dst w_set_dst].
+    apply (hinv_data_write (w_dst (st_w st)) objs pads m1 (core p) addr (le_encode (Z.to_nat n) v)); auto; try lia.
+    all: try (cbn [core p_seg p_off]; rewrite ?Ln; lia).
+    intros q Hq. rewrite Ln. apply (E4 eq_refl q Hq).
   - (* BitList.Set *)
     destruct (hget st h) as [l p] eqn:EH.
     unfold dset. destruct (set_in (st_w st) l _) as [w1| |] eqn:ES; intros E Hns; injection E as <- _;
-      try (exists pads; exact S).
-    exists pads.
+      try (exists objs, pads; exact S).
+    exists objs, pads.
+    pose proof (hget_dst st objs pads h S) as Hl. rewrite EH in Hl. cbn in Hl. subst l.
+    destruct (hget_view st objs pads h S) as [Vw _]. rewrite EH in Vw. cbn [snd] in Vw.
     assert (Hval : p_valid (as_list p) = true /\ 0 <= i < p_len (as_list p) /\ p_bit (as_list p) = true).
-    { unfold set_in in ES. destruct l; [unfold lift0 in ES|]; unfold bitlist_set in ES;
+    { unfold set_in, lift0, bitlist_set in ES.
         destruct (negb (p_valid (as_list p)) || (i <? 0) || (i >=? p_len (as_list p))) eqn:E1; try discriminate;
         destruct (negb (p_bit (as_list p))) eqn:E2; try discriminate;
         (split; [destruct (p_valid (as_list p)); auto; discriminate|split; [lia|destruct (p_bit (as_list p)); auto; discriminate]]). }
     destruct Hval as (Hval & Hi & Hbit).
-    assert (Eas : as_list p = p /\ p_kind p = KList).
-    { unfold as_list, is_list in *. destruct (p_valid p && _) eqn:EE; [|discriminate Hval].
-      split; [reflexivity|]. destruct (p_kind p); auto; rewrite Bool.andb_false_r in EE; discriminate. }
-    destruct Eas as [Eas Ek]. rewrite Eas in *.
-    assert (HP : p = snd (hget st h)) by (rewrite EH; reflexivity).
-    destruct (hget_obj st pads h S ltac:(rewrite <- HP; exact Hval)) as (Hin & Hmem & Hl). rewrite <- HP in Hin. rewrite EH in Hl. cbn in Hl. subst l.
-    destruct (hi_good _ _ _ H p Hin) as [_ G]. pose proof G as (Sh & Gs & Gi & Go).
-    pose proof Sh as Sh'. unfold shape_ok in Sh'. rewrite Ek in Sh'. destruct Sh' as (Hc & Hlen & Hk).
+    destruct (as_list_valid p Hval) as [Eas Ek]. rewrite Eas in *.
+    destruct (list_view objs p Vw Hval Ek) as [Hin _].
+    destruct (core_facts p) as (C1 & C2 & C3 & C4 & C5 & C6 & C7).
+    destruct (hi_good _ _ _ H _ Hin) as [_ G]. pose proof G as (Sh & _). apply (proj1 C7) in Sh.
+    pose proof Sh as Sh'. unfold shape_ok in Sh'. rewrite Ek in Sh'. destruct Sh' as (Hlen & [(Hc & Hk)|(_ & Hb & _)]); [|congruence].
     assert (OB : obj_bytes p = bitListSize (p_len p)) by (rewrite list_alloc_eq; auto; rewrite Hbit; reflexivity).
-    destruct (in_seg_elim _ _ _ _ Gi) as (G1 & G2 & G3 & G4 & G5). unfold obj_reg in G3, G4. cbn [r_size] in G3, G4. rewrite OB in G3, G4.
-    rewrite seg_len_bm in G4. pose proof (hi_small _ _ _ H (p_seg p)) as Hsm. unfold maxSegmentSize in Hsm.
-    unfold bitListSize, padToWord, u32 in G3, G4.
+    destruct (obj_bounds _ _ _ _ H Hin) as (B1 & B2 & B3 & B4 & B5). rewrite C1, C5 in *. cbn [core p_seg p_off] in *.
+    unfold obj_reg, obj_start in *. rewrite Hc in *. cbn [r_size] in *. rewrite OB in *.
+    unfold bitListSize, padToWord, u32 in B4.
     unfold set_in, lift0, bitlist_set in ES.
     destruct (negb (p_valid p) || (i <? 0) || (i >=? p_len p)); [discriminate|]. destruct (negb (p_bit p)); [discriminate|].
     unfold bitOffset_offset in ES.
@@ -613,88 +927,123 @@ Proof.
     destruct (seg_write (w_dst (st_w st)) (p_seg p) (p_off p + i / 8) _) as [m1| |] eqn:EW; cbn [bind] in ES; try discriminate.
     apply Ok_inj in ES. subst w1.
     apply seg_write_wrote in EW; [|lia|cbn; lia].
-    split; [|exact P]. unfold objs_of. cbn [st_h st_w w_dst w_set_dst]. fold (objs_of st).
-    apply (hinv_data_write (w_dst (st_w st)) (objs_of st) pads m1 p (p_off p + i / 8) [set_bit_in b (i mod 8) v]); auto; try lia.
-    + change (zlen [set_bit_in b (i mod 8) v]) with 1. unfold obj_reg. cbn [r_size]. rewrite OB. unfold bitListSize, padToWord, u32. lia.
-    + intros q Hq. exfalso. unfold slots, tgt_of, et_of in Hq. rewrite Ek, Hbit in Hq. cbn in Hq. destruct Hq.
+    split; [|exact P]. cbn [st_h st_w w_dst w_set_dst].
+    apply (hinv_data_write (w_dst (st_w st)) objs pads m1 (core p) (p_off p + i / 8) [set_bit_in b (i mod 8) v]); auto; try lia.
+    all: try (cbn [core p_seg p_off]; lia).
+    all: try (change (zlen [set_bit_in b (i mod 8) v]) with 1; change (obj_reg (core p)) with (obj_reg p); change (obj_start (core p)) with (obj_start p); unfold obj_reg, obj_start; rewrite ?Hc; cbn [r_size]; rewrite ?OB;
+      unfold bitListSize, padToWord, u32; lia).
+    intros q Hq. exfalso. change (slots (core p)) with (slots p) in Hq. unfold slots, tgt_of, et_of in Hq. rewrite Ek, Hc, Hbit in Hq. cbn in Hq. destruct Hq.
   - (* SetPtr *)
     destruct (hget st h) as [l p] eqn:EH. destruct (hget st hs) as [ls q] eqn:EQ. cbn [sub_op] in Hop.
     destruct (is_src l) eqn:EL; [discriminate|].
     unfold pset. destruct (struct_set_ptr (e_fuel e) (st_w st) (as_struct p) i ls q) as [w1| |] eqn:ES; try discriminate.
-    intros E Hns. injection E as <- _. cbn [st_w] in Hns.
+    intros E Hns. injection E as <- _. cbn [st_w] in Hns. exists objs.
     unfold struct_set_ptr in ES.
     destruct (negb (p_valid (as_struct p)) || (i >=? PointerCount (p_size (as_struct p)))) eqn:EE; [discriminate|].
     assert (Hval : p_valid (as_struct p) = true) by (destruct (p_valid (as_struct p)); auto; discriminate).
-    assert (Eas : as_struct p = p /\ p_kind p = KStruct).
-    { unfold as_struct, is_struct in *. destruct (p_valid p && _) eqn:EE2; [|discriminate Hval].
-      split; [reflexivity|]. destruct (p_kind p); auto; rewrite Bool.andb_false_r in EE2; discriminate. }
-    destruct Eas as [Eas Ek]. rewrite Eas in *.
-    assert (HP : p = snd (hget st h)) by (rewrite EH; reflexivity).
-    destruct (hget_obj st pads h S ltac:(rewrite <- HP; exact Hval)) as (Hin & _ & _). rewrite <- HP in Hin.
-    destruct (hi_good _ _ _ H p Hin) as [_ G].
-    assert (Hq0 : In (p_seg p, pointerAddress p i) ((0, 0) :: flat_map slots (objs_of st))).
-    { right. apply in_flat_map. exists p. split; [exact Hin|].
-      apply (struct_slot_in (bm_data (w_dst (st_w st)))); auto; [|lia].
-      rewrite seg_len_bm. apply (hi_small _ _ _ H). }
-    (* the source handle: null, or a table object of this message *)
-    assert (HQ : q = snd (hget st hs)) by (rewrite EQ; reflexivity).
-    assert (Hsrc : p_valid q = false \/ In q (objs_of st) /\ p_member q = false).
-    { destruct (p_valid q) eqn:EVq; [right|left; reflexivity].
-      destruct (hget_obj st pads hs S ltac:(rewrite <- HQ; exact EVq)) as (X1 & X2 & _). rewrite <- HQ in *. auto. }
-    assert (ES' : write_ptr (e_fuel e) true (st_w st) (p_seg p) (pointerAddress p i) InDst q false = Ok w1).
-    { destruct (p_valid q) eqn:EVq.
-      - destruct (hget_obj st pads hs S ltac:(rewrite <- HQ; exact EVq)) as (_ & _ & X3). rewrite EQ in X3. cbn in X3. subst ls. exact ES.
-      - rewrite <- (write_ptr_invalid_loc _ _ _ _ _ ls) by exact EVq. exact ES. }
-    destruct (e_fuel e) as [|f]; [discriminate ES'|].
-    destruct (write_ptr_hinv f (st_w st) (objs_of st) pads (p_seg p, pointerAddress p i) q w1 H Hq0 Hsrc ES' Hns) as [pads' H'].
-    exists (pads ++ pads'). split; [exact H'|exact P].
+    destruct (as_struct_valid p Hval) as [Eas Ek]. rewrite Eas in *.
+    destruct (hget_view st objs pads h S) as [Vw _]. rewrite EH in Vw. cbn [snd] in Vw.
+    destruct (struct_view_geom _ _ _ p H Vw Hval Ek) as (ho & Hin & Eseg & D0 & P0 & Olo & Ohi & _ & Hsl).
+    destruct (obj_bounds _ _ _ _ H Hin) as (B1 & B2 & B3 & B4 & B5). rewrite Eseg in *.
+    assert (PA : pointerAddress p i = p_off p + DataSize (p_size p) + 8 * i).
+    { apply pointerAddress_eq; unfold maxSegmentSize; lia. }
+    assert (Hq0 : In (p_seg p, pointerAddress p i) ((0, 0) :: flat_map slots objs)).
+    { right. apply in_flat_map. exists ho. split; [exact Hin|]. rewrite PA. apply Hsl. lia. }
+    unfold plain_src in Hpl. cbn [src_handle] in Hpl.
+    apply (slot_store st objs pads (e_fuel e) (p_seg p) (pointerAddress p i) hs w1); auto.
+    rewrite EQ. exact ES.
+  - (* PointerList.Set *)
+    destruct (hget st h) as [l p] eqn:EH. destruct (hget st hs) as [ls q] eqn:EQ.
+    destruct (is_src l) eqn:EL; [discriminate|].
+    unfold pset. destruct (ptrlist_set (e_fuel e) (st_w st) (as_list p) i ls q) as [w1| |] eqn:ES; try discriminate.
+    intros E Hns. injection E as <- _. cbn [st_w] in Hns. exists objs.
+    unfold ptrlist_set in ES.
+    destruct (primitiveElem true (as_list p) i (mkOS 0 1)) as [addr| |] eqn:PE; cbn [bind] in ES; try discriminate.
+    assert (Hval : p_valid (as_list p) = true).
+    { unfold primitiveElem in PE. destruct (p_valid (as_list p)); auto. cbn in PE. discriminate. }
+    destruct (as_list_valid p Hval) as [Eas Ek]. rewrite Eas in *.
+    destruct (hget_view st objs pads h S) as [Vw _]. rewrite EH in Vw. cbn [snd] in Vw.
+    destruct (list_view objs p Vw Hval Ek) as [Hin _].
+    destruct (list_elem_geom _ _ _ p i (mkOS 0 1) addr H Hin Hval Ek PE ltac:(left; reflexivity)) as (_ & _ & E3 & _).
+    assert (Hq0 : In (p_seg p, addr) ((0, 0) :: flat_map slots objs)).
+    { right. apply in_flat_map. exists (core p). split; [exact Hin|]. apply E3. reflexivity. }
+    unfold plain_src in Hpl. cbn [src_handle] in Hpl.
+    apply (slot_store st objs pads (e_fuel e) (p_seg p) addr hs w1); auto.
+    rewrite EQ. exact ES.
   - (* SetRoot *)
     destruct (hget st hs) as [ls q] eqn:EQ.
     unfold pset. destruct (set_root (e_fuel e) (st_w st) ls q) as [w1| |] eqn:ES; try discriminate.
-    intros E Hns. injection E as <- _. cbn [st_w] in Hns.
+    intros E Hns. injection E as <- _. cbn [st_w] in Hns. exists objs.
     unfold set_root, set_root_gen in ES.
     destruct (bm_segs (w_dst (st_w st))) as [|s0 r0] eqn:EB; [discriminate|].
     destruct (negb _); [discriminate|].
-    assert (Hq0 : In (0, 0) ((0, 0) :: flat_map slots (objs_of st))) by (left; reflexivity).
-    assert (HQ : q = snd (hget st hs)) by (rewrite EQ; reflexivity).
-    assert (Hsrc : p_valid q = false \/ In q (objs_of st) /\ p_member q = false).
-    { destruct (p_valid q) eqn:EVq; [right|left; reflexivity].
-      destruct (hget_obj st pads hs S ltac:(rewrite <- HQ; exact EVq)) as (X1 & X2 & _). rewrite <- HQ in *. auto. }
-    assert (ES' : write_ptr (e_fuel e) true (st_w st) 0 0 InDst q false = Ok w1).
-    { destruct (p_valid q) eqn:EVq.
-      - destruct (hget_obj st pads hs S ltac:(rewrite <- HQ; exact EVq)) as (_ & _ & X3). rewrite EQ in X3. cbn in X3. subst ls. exact ES.
-      - rewrite <- (write_ptr_invalid_loc _ _ _ _ _ ls) by exact EVq. exact ES. }
-    destruct (e_fuel e) as [|f]; [discriminate ES'|].
-    destruct (write_ptr_hinv f (st_w st) (objs_of st) pads (0, 0) q w1 H Hq0 Hsrc ES' Hns) as [pads' H'].
-    exists (pads ++ pads'). split; [exact H'|exact P].
-  - (* read-only accessors *)
+    unfold plain_src in Hpl. cbn [src_handle] in Hpl.
+    apply (slot_store st objs pads (e_fuel e) 0 0 hs w1); auto; [left; reflexivity|].
+    rewrite EQ. exact ES.
+  - (* read-side ops *)
     cbn [sub_op] in Hop.
     set (l1 := match op_handle o with Some h => fst (hget st h) | None => l end).
     destruct (step (cfg_of e l1) all_fixes (w_segs (st_w st) l1) (mkRS (map snd (st_h st)) (w_rl (st_w st) l1)) o) as [rs' v0] eqn:EST.
-    intros E Hns. injection E as <- _. exists pads.
-    rewrite (ro_step_handles _ _ _ _ _ _ _ Hop EST). rewrite skipn_all2 by (rewrite map_length; lia). cbn [map]. rewrite app_nil_r.
+    intros E Hns. injection E as <- _. exists objs, pads.
     destruct (w_set_rl_dst (st_w st) l1 (rs_rl rs')) as (T1 & T2 & _).
-    apply sinv_same_segs; auto.
+    destruct (ro_op o) eqn:ERO.
+    + (* read-only accessors *)
+      rewrite (ro_step_handles _ _ _ _ _ _ _ ERO EST). rewrite skipn_all2 by (rewrite map_length; lia). cbn [map]. rewrite app_nil_r.
+      apply sinv_same_segs; auto.
+    + (* List.Struct *)
+      destruct o; try discriminate Hop; try discriminate ERO. cbn [op_handle] in l1. cbn [step] in EST.
+      assert (El : l1 = InDst) by (apply (hget_dst st objs pads h S)).
+      injection EST as <- _. unfold push. cbn [rs_handles rs_rl].
+      rewrite skipn_app, skipn_all2 by (rewrite map_length; lia).
+      replace (length (st_h st) - length (map snd (st_h st)))%nat with O by (rewrite map_length; lia).
+      cbn [skipn app map]. unfold handle. cbn [rs_handles].
+      set (p := nth (Z.to_nat h) (map snd (st_h st)) nullPtr).
+      assert (Ep : p = snd (hget st h)).
+      { unfold p, hget. change nullPtr with (snd (InDst, nullPtr)). apply map_nth. }
+      destruct (hget_view st objs pads h S) as [Vw _]. rewrite <- Ep in Vw.
+      pose proof (sinv_same_segs st objs pads (w_set_rl (st_w st) l1 (w_rl (st_w st) l1)) S) as S2.
+      destruct (w_set_rl_dst (st_w st) l1 (w_rl (st_w st) l1)) as (U1 & U2 & _).
+      specialize (S2 U1 U2). destruct S2 as [H2 P2]. rewrite El in *.
+      split; [exact H2|]. cbn [st_h].
+      unfold pool_ok. apply Forall_app. split; [exact P2|]. constructor; [|constructor]. split; [reflexivity|]. cbn [snd].
+      destruct (list_struct true (as_list p) i) as [x| |] eqn:ELS; try apply view_null.
+      unfold list_struct in ELS.
+      destruct (negb (p_valid (as_list p)) || (i <? 0) || (i >=? p_len (as_list p))) eqn:EI; [discriminate|].
+      assert (Hval : p_valid (as_list p) = true) by (destruct (p_valid (as_list p)); auto; discriminate).
+      destruct (as_list_valid p Hval) as [Eas Ek]. rewrite Eas in *.
+      destruct (list_view objs p Vw Hval Ek) as [Hin _].
+      destruct (p_bit p) eqn:EB; [apply Ok_inj in ELS; subst x; apply view_null|].
+      destruct (element (p_off p) i (totalSize (p_size p))) as [a0|] eqn:EE; [|apply Ok_inj in ELS; subst x; apply view_null].
+      apply element_spec in EE. destruct EE as [Ead _]. apply Ok_inj in ELS. subst x.
+      right. right. exists (core p), i. split; [exact Hin|].
+      unfold member_at. cbn [core p_kind p_bit p_len p_valid p_seg p_off p_size p_member]. repeat split; auto; lia.
   - (* round trip *)
-    destruct (root _ _ _) as [r rl]. intros E _. injection E as <- _. exists pads. exact S.
+    destruct (root _ _ _) as [r rl]. intros E _. injection E as <- _. exists objs, pads. exact S.
   - (* dump *)
-    destruct l; intros E _; injection E as <- _; exists pads; exact S.
+    destruct l; intros E _; injection E as <- _; exists objs, pads; exact S.
 Qed.
 
 (* ------------------------------------------------------------------ op lists *)
 Definition sub_prog (ops : list bop) : bool := forallb sub_op ops.
 Definition seg_bound (st : bstate) : Prop := nsegs (w_dst (st_w st)) < 4294967296.
 
-Theorem brun_hinv e : forall ops st pads,
-  sinv st pads -> sub_prog ops = true -> Forall seg_bound (bstates e st ops) ->
-  Forall (fun st' => exists pads', sinv st' pads') (bstates e st ops).
+(* [plain_src] at every step of a run *)
+Fixpoint plain_run (e : benv) (st : bstate) (ops : list bop) : Prop :=
+  match ops with
+  | [] => True
+  | o :: r => plain_src st o /\ match bstep e st o with (Some st1, _) => plain_run e st1 r | _ => True end
+  end.
+
+Theorem brun_hinv e : forall ops st objs pads,
+  sinv st objs pads -> sub_prog ops = true -> plain_run e st ops -> Forall seg_bound (bstates e st ops) ->
+  Forall (fun st' => exists objs' pads', sinv st' objs' pads') (bstates e st ops).
 Proof.
-  induction ops as [|o r IH]; intros st pads S Hp Hb; cbn [bstates] in *; constructor; eauto.
+  induction ops as [|o r IH]; intros st objs pads S Hp Hpl Hb; cbn [bstates] in *; constructor; eauto.
   cbn [sub_prog forallb] in Hp. apply andb_prop in Hp. destruct Hp as [Ho Hr].
-  inversion Hb as [|? ? _ Hb']; subst.
+  inversion Hb as [|? ? _ Hb']; subst. destruct Hpl as [Hpl1 Hpl2].
   destruct (bstep e st o) as [[st1|] v] eqn:E; [|constructor].
   assert (B1 : seg_bound st1) by (destruct r; cbn [bstates] in Hb'; inversion Hb'; assumption).
-  destruct (bstep_hinv e st pads o st1 v S Ho E B1) as [pads1 S1].
+  destruct (bstep_hinv e st objs pads o st1 v S Ho Hpl1 E B1) as (objs1 & pads1 & S1).
   eapply IH; eauto.
 Qed.
 
@@ -794,15 +1143,17 @@ Qed.
 
 (* [heap_inv_sublang]: every arena configuration that has a root word, every program of the
    sub-language, every state the interpreter reaches while the message has fewer than 2^32
-   segments: the pool is the object table and the pointer-level invariant holds *)
+   segments: every valid pool handle is a view of the object table and the pointer-level
+   invariant holds *)
 Theorem heap_inv_sublang a cfgd cfgs ncaps fuel src ops m :
   arena_spec_wf a -> root_cap_ok a -> create a (init_rlimit cfgd) = Ok m -> sub_prog ops = true ->
   let st0 := mkBSt (mkW m src (init_rlimit cfgs)) [] in
+  plain_run (mkEnv cfgd cfgs ncaps fuel) st0 ops ->
   Forall seg_bound (bstates (mkEnv cfgd cfgs ncaps fuel) st0 ops) ->
-  Forall (fun st => exists pads, sinv st pads) (bstates (mkEnv cfgd cfgs ncaps fuel) st0 ops).
+  Forall (fun st => exists objs pads, sinv st objs pads) (bstates (mkEnv cfgd cfgs ncaps fuel) st0 ops).
 Proof.
-  intros Ha Hr Hc Hp st0 Hb.
+  intros Ha Hr Hc Hp st0 Hpl Hb.
   assert (B0 : seg_bound st0) by (destruct ops; cbn [bstates] in Hb; inversion Hb; assumption).
-  apply (brun_hinv _ ops st0 []); auto.
-  split; [|constructor]. unfold objs_of. cbn. eapply create_hinv; eauto.
+  apply (brun_hinv _ ops st0 [] []); auto.
+  split; [|constructor]. cbn. eapply create_hinv; eauto.
 Qed.
